@@ -1,14 +1,45 @@
 /-
   The whole document pipeline (html-free configurations): property theorems about the composed
   model `MdIt.Pipeline` (`Model/Pipeline.lean`), which the stream `pipeline` checks against
-  `md.parse(src)` / `.render()` / `.xrender()` of the real parser.  Everything is COMPOSED from the
-  theorems of the slices (`Props/Block`, `Props/Inline`, `Props/NodeRender`, `Props/C03`, `Props/C15`).
+  `md.parse(src)` / `.render()` / `.xrender()` of the real parser (0 differences on 23 323 documents,
+  all 652 spec inputs included).  Everything is COMPOSED from the theorems of the slices
+  (`Props/Block`, `Props/Inline`, `Props/NodeRender`, `Props/C03`, `Props/C15`); every statement is
+  for ALL configurations of the model (any subset / order of the nine cmark block rules and the ten
+  html-free inline rules, any `max_nesting`, with and without `sourcepos`) and ALL sources, and is
+  conditional only on `parseDoc` returning `.ok` (absence of panics of the block pass and of the
+  inline runs is C01's composition; the pipeline itself adds none: `parseDoc_panic`).
 
-  Part A (namespace `MdIt.Block`): one more invariant of the block parser, by the induction scheme
-  of `list_shape`: `parseBlocks_wf` — every tree `parseBlocks` returns is `WFB`:
-      ATX level in 1..6, setext level in 1..2, heading / paragraph = exactly one `InlineRoot` leaf,
-      leaf kinds childless, lists = items only, items only under lists, `Root` nowhere below the top,
-      and — when the paragraph rule is in the chain — no bare `InlineRoot` under `Root` / `Blockquote`.
+  Part A (namespace `MdIt.Block`) — one more invariant of the block parser, by the induction scheme
+  of `list_shape`:
+    `parseBlocks_wf`        every tree `parseBlocks` returns is `WFB` at every node: ATX level in 1..6,
+                            setext level in 1..2, heading / paragraph = exactly one childless
+                            `InlineRoot`, leaf kinds childless, lists = items only, items under lists
+                            only, `Root` nowhere below the top, and — with the paragraph rule in the
+                            chain — no bare `InlineRoot` under `Root` / `Blockquote`
+                            (`runChain_para`: the no-paragraph fallback is then dead code)
+  Part B (namespace `MdIt.Pipeline`):
+    `parseDoc_final`        the tree invariant: every node `Final` (attributes = `data-sourcepos` only;
+                            no `InlineRoot`: `spliceList_every`; no `EmphMarker`: `joinNode_every` /
+                            `Inline.notMarker_good`; heading levels in range), rooted at `Root`
+    `parseDoc_panic`, `renderDoc_panic`   the only panics of `src ↦ tree ↦ html` are those of the block
+                            pass and of the inline runs (`sourceposNode_total` from `C15.getPositions_spec`,
+                            `doc_render_total`)
+    1 `doc_output_html_free`   `HtmlFree` ∧ `AttrsSourcepos` of the projection to `NodeRender.Node`
+    2 `doc_output_renderable`  `Renderable`, with NO condition on the configuration;
+      `doc_render_total`       hence `render` / `xrender` never panic on a parsed tree
+    3 `doc_safe_output`(`'`)   C03 for documents: both renderings are in the safe output language
+                            `SafeHtml` (`NodeRender.safe_output` + 1 + 2)
+    4 `doc_deterministic`, `doc_pure`, `doc_refs_local`, `inline_state_local`   C07 for documents
+    5 `doc_tree_wf`            C14 for documents: `WF` (`LocK` at every node) — no placeholder, `Root`
+                            on top only, lists / items, inline nodes in their places, block leaves
+                            childless, text normal form when the join pass runs
+                            (`fragmentsJoin_nf` = the proof of `C14.join_normal_form` on this node type)
+      `doc_sourcepos_spec`     C15 for documents: the one attribute of a ranged node is `data-sourcepos` with the
+                            positions of the SPECIFICATION of C15 for its byte range
+    6 `render_ranges_irrelevant`, `doc_line_ending_reduction`   C10 for documents, reduced to two
+                            congruence lemmas of the block and the inline slice (OPEN block at the end)
+  OPEN blocks: two clauses of C14 (inline leaf kinds childless; text normal form without a join
+  pass), `doc_line_ending_invariant` (C10) — each with the missing lemma named.
 -/
 import MdIt.Props.Block
 import MdIt.Props.Inline
@@ -555,3 +586,1918 @@ theorem parseBlocks_wf {cfg : Cfg} {src : List Char} {root : BNode} {refs : Refs
     exact wfb_container (.inl rfl) hg
 
 end MdIt.Block
+
+/-! # Part B: the document pipeline -/
+
+namespace MdIt.Pipeline
+open MdIt.NodeRender (aSourcepos)
+
+/-- a predicate holds at every node of a document tree -/
+inductive Every (P : Node → Prop) : Node → Prop
+  | mk (n : Node) : P n → (∀ c ∈ n.children, Every P c) → Every P n
+
+theorem Every.here {P : Node → Prop} {n : Node} (h : Every P n) : P n := by cases h; assumption
+theorem Every.child {P : Node → Prop} {n : Node} (h : Every P n) : ∀ c ∈ n.children, Every P c := by
+  cases h; assumption
+
+theorem Every.imp {P Q : Node → Prop} (hpq : ∀ n, P n → Q n) : ∀ {n : Node}, Every P n → Every Q n := by
+  intro n h
+  induction h with
+  | mk n hp _ ih => exact .mk n (hpq n hp) ih
+
+/-! ## the kinds of the final tree -/
+
+/-- a block value as `render` needs it: no `InlineRoot` placeholder, heading levels inside the
+    `TAG` tables -/
+def BlkOK : Block.Kind → Prop
+  | .atx l => 1 ≤ l ∧ l ≤ 6
+  | .setext l _ => 1 ≤ l ∧ l ≤ 2
+  | .inlineRoot _ _ => False
+  | _ => True
+
+/-- the value is the parser-internal placeholder `EmphMarker` -/
+def Kind.isMarker : Kind → Bool
+  | .inl (.emphMarker _ _ _ _ _) => true
+  | _ => false
+
+/-- a final value: a block value that is `BlkOK`, or an inline value that is not the `EmphMarker`
+    placeholder (`markers = true`: placeholders still allowed — the tree before `FragmentsJoin`) -/
+def KindOK (markers : Bool) : Kind → Prop
+  | .blk k => BlkOK k
+  | k => k.isMarker = true → markers = true
+
+theorem BlkOK_of_loc {para : Bool} {k : Block.Kind} {cs : List Block.BNode} (h : Block.LocB para k cs)
+    (hk : ∀ t m, k ≠ .inlineRoot t m) : BlkOK k := by
+  cases k <;> simp only [BlkOK]
+  case atx l => exact h.2.1
+  case setext l c => exact h.2.1
+  case inlineRoot t m => exact absurd rfl (hk t m)
+
+/-! ## step 1: the splice walk -/
+
+/-- what the inline parser's values satisfy: without an emphasis-like rule no `EmphMarker` is ever
+    created (`Inline.notMarker_good`) -/
+def ValOK (icfg : Inline.Cfg) (v : Inline.Val) : Prop := icfg.hasEmph = false → Inline.NotMarker v
+
+theorem valOK_good (icfg : Inline.Cfg) : Inline.GoodP icfg (ValOK icfg) := by
+  have hno : icfg.hasEmph = false → ∀ mk csw, Inline.RuleId.emph mk csw ∉ icfg.chain := by
+    intro h mk csw hmem
+    unfold Inline.Cfg.hasEmph at h
+    rw [List.any_eq_false] at h
+    have := h _ hmem
+    simp [Inline.RuleId.isEmph] at this
+  exact ⟨fun _ _ => trivial, fun _ _ _ _ => trivial, fun _ => trivial, fun _ => trivial,
+    fun _ _ _ => trivial, fun _ _ _ _ _ => trivial, fun _ _ _ _ => trivial, fun _ _ _ _ => trivial,
+    fun mk csw hm _ _ _ _ he => absurd hm (hno he mk csw), fun _ _ _ _ _ => trivial,
+    fun _ _ _ _ _ _ h => h⟩
+
+/-- the condition on a node after the splice walk: no attribute yet, a final value except that
+    `EmphMarker`s may be there when an emphasis-like rule is configured -/
+def Spliced (markers : Bool) (n : Node) : Prop := n.attrs = [] ∧ KindOK markers n.kind
+
+mutual
+theorem ofInline_every {icfg : Inline.Cfg} (n : Inline.Node) (h : Inline.AllVals (ValOK icfg) n) :
+    Every (Spliced icfg.hasEmph) (ofInline n) := by
+  match n with
+  | ⟨v, r, cs⟩ =>
+    rw [Inline.AllVals_eq] at h
+    unfold ofInline
+    refine .mk _ ⟨rfl, ?_⟩ (ofInlineList_every cs h.2)
+    have hv := h.1
+    simp only at hv
+    cases v <;> simp only [KindOK, Kind.isMarker] <;> try (intro hc; cases hc)
+    cases he : icfg.hasEmph with
+    | true => rfl
+    | false => exact absurd (hv he) (by simp [Inline.NotMarker])
+theorem ofInlineList_every {icfg : Inline.Cfg} (cs : List Inline.Node)
+    (h : Inline.AllValsList (ValOK icfg) cs) :
+    ∀ c ∈ ofInlineList cs, Every (Spliced icfg.hasEmph) c := by
+  match cs with
+  | [] => simp [ofInlineList]
+  | c :: r =>
+    simp only [Inline.AllValsList] at h
+    intro x hx
+    simp only [ofInlineList, List.mem_cons] at hx
+    rcases hx with rfl | hx
+    · exact ofInline_every c h.1
+    · exact ofInlineList_every r h.2 x hx
+end
+
+mutual
+theorem spliceNode_every' {para : Bool} {icfg : Inline.Cfg} (b : Block.BNode) (hw : Block.WFB para b)
+    (hk : ∀ t m, b.kind ≠ .inlineRoot t m) (t : Node) (h : spliceNode icfg b = .ok t) :
+    Every (Spliced icfg.hasEmph) t ∧ t.kind = .blk b.kind := by
+  match b with
+  | ⟨k, r, cs⟩ =>
+    simp only [spliceNode] at h
+    split at h
+    · cases h
+    · rename_i cs' hcs
+      cases h
+      exact ⟨.mk _ ⟨rfl, BlkOK_of_loc hw.at hk⟩ (spliceList_every cs hw.child cs' hcs), rfl⟩
+theorem spliceList_every {para : Bool} {icfg : Inline.Cfg} (cs : List Block.BNode)
+    (hw : ∀ c ∈ cs, Block.WFB para c) (out : List Node) (h : spliceList icfg cs = .ok out) :
+    ∀ c ∈ out, Every (Spliced icfg.hasEmph) c := by
+  match cs with
+  | [] => simp [spliceList] at h; subst h; simp
+  | c :: rest =>
+    have hrest : ∀ x ∈ rest, Block.WFB para x := fun x hx => hw x (List.mem_cons_of_mem _ hx)
+    simp only [spliceList] at h
+    split at h
+    · -- an `InlineRoot`: the children the inline parser returns
+      split at h
+      · cases h
+      · rename_i ns hns
+        split at h
+        · cases h
+        · rename_i rest' hr
+          cases h
+          have hv := Inline.parseInline_vals icfg (valOK_good icfg) hns
+          intro x hx
+          rcases List.mem_append.mp hx with h1 | h1
+          · exact ofInlineList_every ns hv x h1
+          · exact spliceList_every rest hrest rest' hr x h1
+    · -- any other child: walked
+      rename_i hne
+      split at h
+      · cases h
+      · rename_i c' hc
+        split at h
+        · cases h
+        · rename_i rest' hr
+          cases h
+          intro x hx
+          rcases List.mem_cons.mp hx with rfl | hx
+          · exact (spliceNode_every' c (hw c (by simp)) (fun t m e => hne t m e) _ hc).1
+          · exact spliceList_every rest hrest rest' hr x hx
+end
+
+theorem spliceNode_every {para : Bool} {icfg : Inline.Cfg} {b : Block.BNode} {t : Node}
+    (hw : Block.WFB para b) (hk : b.kind = .root) (h : spliceNode icfg b = .ok t) :
+    Every (Spliced icfg.hasEmph) t ∧ t.kind = .blk .root := by
+  have := spliceNode_every' b hw (by rw [hk]; simp) t h
+  rw [hk] at this
+  exact this
+
+mutual
+/-- a panic of the splice walk is a panic of one of the inline runs -/
+theorem spliceNode_panic {icfg : Inline.Cfg} (b : Block.BNode) (e : Panic)
+    (h : spliceNode icfg b = .error e) : ∃ p, e = .inline p := by
+  match b with
+  | ⟨k, r, cs⟩ =>
+    simp only [spliceNode] at h
+    split at h
+    · rename_i e' he'; cases h; exact spliceList_panic cs _ he'
+    · cases h
+theorem spliceList_panic {icfg : Inline.Cfg} (cs : List Block.BNode) (e : Panic)
+    (h : spliceList icfg cs = .error e) : ∃ p, e = .inline p := by
+  match cs with
+  | [] => simp [spliceList] at h
+  | c :: rest =>
+    simp only [spliceList] at h
+    split at h
+    · split at h
+      · cases h; exact ⟨_, rfl⟩
+      · split at h
+        · rename_i e' he'; cases h; exact spliceList_panic rest _ he'
+        · cases h
+    · split at h
+      · rename_i e' he'; cases h; exact spliceNode_panic c _ he'
+      · split at h
+        · rename_i e' he'; cases h; exact spliceList_panic rest _ he'
+        · cases h
+end
+
+/-! ## step 2: `FragmentsJoin` -/
+
+/-- an inline-level value -/
+def Kind.isInline : Kind → Bool
+  | .inl _ => true
+  | .blk _ => false
+
+/-- `c'` is `c` with, possibly, a `Text` value instead of its own INLINE value, and another range:
+    what `fragments_join` does to a child it keeps -/
+def Retext (c c' : Node) : Prop :=
+  c'.children = c.children ∧ c'.attrs = c.attrs ∧
+    (c'.kind = c.kind ∨ (c'.isText = true ∧ c.kind.isInline = true))
+
+theorem Retext.refl (c : Node) : Retext c c := ⟨rfl, rfl, .inl rfl⟩
+
+theorem isText_of_kind {a b : Node} (h : a.kind = b.kind) : a.isText = b.isText := by
+  unfold Node.isText; rw [h]
+
+theorem isInline_of_isText {n : Node} (h : n.isText = true) : n.kind.isInline = true := by
+  unfold Node.isText at h
+  split at h
+  · next heq => rw [heq]; rfl
+  · cases h
+
+theorem Retext.trans {a b c : Node} (h1 : Retext a b) (h2 : Retext b c) : Retext a c := by
+  refine ⟨h2.1.trans h1.1, h2.2.1.trans h1.2.1, ?_⟩
+  rcases h2.2.2 with e | ⟨e, ei⟩
+  · rcases h1.2.2 with e1 | ⟨e1, ei1⟩
+    · exact .inl (e.trans e1)
+    · exact .inr ⟨by rw [isText_of_kind e]; exact e1, ei1⟩
+  · rcases h1.2.2 with e1 | ⟨e1, ei1⟩
+    · exact .inr ⟨e, by rw [← e1]; exact ei⟩
+    · exact .inr ⟨e, ei1⟩
+
+theorem isMarker_of_isText {n : Node} (h : n.isText = true) : n.kind.isMarker = false := by
+  unfold Node.isText at h
+  split at h
+  · next heq => rw [heq]; rfl
+  · cases h
+
+theorem Retext.notMarker {c c' : Node} (h : Retext c c') (hc : c.kind.isMarker = false) :
+    c'.kind.isMarker = false := by
+  rcases h.2.2 with e | ⟨e, _⟩
+  · rw [e]; exact hc
+  · exact isMarker_of_isText e
+
+theorem markerToText_spec (c : Node) : Retext c (markerToText c) ∧ (markerToText c).kind.isMarker = false := by
+  unfold markerToText
+  split
+  · next heq => exact ⟨⟨rfl, rfl, .inr ⟨rfl, by rw [heq]; rfl⟩⟩, rfl⟩
+  · next h =>
+    refine ⟨Retext.refl c, ?_⟩
+    unfold Kind.isMarker
+    split
+    · next m l rem o cl heq => exact absurd heq (h m l rem o cl)
+    · rfl
+
+theorem mergeLoop_mem (cur : Node) (rest : List Node) :
+    ∀ x ∈ mergeLoop cur rest, ∃ c ∈ cur :: rest, Retext c x := by
+  induction rest generalizing cur with
+  | nil => intro x hx; simp [mergeLoop] at hx; subst hx; exact ⟨_, by simp, Retext.refl _⟩
+  | cons nxt rest ih =>
+    intro x hx
+    simp only [mergeLoop] at hx
+    split at hx
+    · next htt =>
+      simp only [Bool.and_eq_true] at htt
+      rcases List.mem_cons.mp hx with rfl | hx
+      · exact ⟨nxt, by simp, ⟨rfl, rfl, .inr ⟨rfl, isInline_of_isText htt.2⟩⟩⟩
+      · obtain ⟨c, hc, hr⟩ := ih _ x hx
+        rcases List.mem_cons.mp hc with rfl | hc
+        · exact ⟨cur, by simp, Retext.trans
+            (show Retext cur (merged cur nxt) from ⟨rfl, rfl, .inr ⟨rfl, isInline_of_isText htt.1⟩⟩) hr⟩
+        · exact ⟨c, by simp [hc], hr⟩
+    · rcases List.mem_cons.mp hx with rfl | hx
+      · exact ⟨_, by simp, Retext.refl _⟩
+      · obtain ⟨c, hc, hr⟩ := ih _ x hx
+        exact ⟨c, List.mem_cons_of_mem _ hc, hr⟩
+
+/-- every child `fragments_join` leaves is one of the old children, possibly turned into / merged
+    as a `Text`, and is not an `EmphMarker` -/
+theorem fragmentsJoin_mem (cs : List Node) :
+    ∀ x ∈ fragmentsJoin cs, ∃ c ∈ cs, Retext c x ∧ x.kind.isMarker = false := by
+  intro x hx
+  unfold fragmentsJoin at hx
+  have hx := (List.mem_filter.mp hx).1
+  have key : ∃ c' ∈ pass1 cs, Retext c' x := by
+    cases hp : pass1 cs with
+    | nil => rw [hp] at hx; simp [mergeAll] at hx
+    | cons c r => rw [hp] at hx; exact mergeLoop_mem c r x hx
+  obtain ⟨c', hc', hr⟩ := key
+  unfold pass1 at hc'
+  obtain ⟨c, hc, rfl⟩ := List.mem_map.mp hc'
+  have hm := markerToText_spec c
+  exact ⟨c, hc, hm.1.trans hr, hr.notMarker hm.2⟩
+
+theorem joinNode_eq (n : Node) : joinNode n = { n with children := joinList (fragmentsJoin n.children) } := by
+  rw [joinNode]
+
+theorem joinList_eq_map (l : List Node) : joinList l = l.map joinNode := by
+  induction l with
+  | nil => rw [joinList]; rfl
+  | cons c cs ih => rw [joinList, ih]; rfl
+
+theorem nsize_le_of_mem {c : Node} {l : List Node} (h : c ∈ l) : nsize c ≤ nsizeList l := by
+  induction l with
+  | nil => simp at h
+  | cons x xs ih =>
+    simp only [nsizeList]
+    rcases List.mem_cons.mp h with rfl | h
+    · omega
+    · have := ih h; omega
+
+theorem Retext.every {P : Node → Prop} {c c' : Node} (h : Retext c c') (hp : P c') (he : Every P c) :
+    Every P c' :=
+  .mk _ hp (by rw [h.1]; exact he.child)
+
+theorem kindOK_text (markers : Bool) {n : Node} (h : n.isText = true) : KindOK markers n.kind := by
+  have := isMarker_of_isText h
+  cases hk : n.kind with
+  | blk k => unfold Node.isText at h; rw [hk] at h; simp at h
+  | inl v => rw [hk] at this; simp only [KindOK]; intro hc; rw [hc] at this; cases this
+
+theorem joinNode_every_aux (k : Nat) : ∀ n : Node, nsize n ≤ k → Every (Spliced true) n →
+    n.kind.isMarker = false → Every (Spliced false) (joinNode n) := by
+  induction k with
+  | zero => intro n hn; rw [nsize_eq] at hn; omega
+  | succ k ih =>
+    intro n hn he hm
+    rw [joinNode_eq, joinList_eq_map]
+    refine .mk _ ⟨he.here.1, ?_⟩ ?_
+    · have := he.here.2
+      simp only
+      cases hk : n.kind with
+      | blk b => rw [hk] at this; exact this
+      | inl v => simp only [KindOK]; intro hc; rw [hk] at hm; rw [hm] at hc; cases hc
+    · intro y hy
+      simp only at hy
+      obtain ⟨x, hx, rfl⟩ := List.mem_map.mp hy
+      obtain ⟨c, hc, hr, hxm⟩ := fragmentsJoin_mem _ x hx
+      have hec := he.child c hc
+      have hpx : Spliced true x := by
+        refine ⟨by rw [hr.2.1]; exact hec.here.1, ?_⟩
+        rcases hr.2.2 with e | ⟨e, _⟩
+        · rw [e]; exact hec.here.2
+        · exact kindOK_text true e
+      have hsz : nsize x ≤ k := by
+        have h1 : nsize x = nsize c := by rw [nsize_eq, nsize_eq, hr.1]
+        have h2 := nsize_le_of_mem hc
+        rw [nsize_eq] at hn
+        omega
+      exact ih x hsz (hr.every hpx hec) hxm
+
+/-- after `FragmentsJoin::run` no `EmphMarker` is left anywhere in the document -/
+theorem joinNode_every {n : Node} (he : Every (Spliced true) n) (hm : n.kind.isMarker = false) :
+    Every (Spliced false) (joinNode n) :=
+  joinNode_every_aux _ n (Nat.le_refl _) he hm
+
+theorem joinNode_kind (n : Node) : (joinNode n).kind = n.kind := by rw [joinNode_eq]
+
+/-! ## step 3: `SyntaxPosRule` -/
+
+/-- the condition on a node of the tree `parseDoc` returns: every attribute is a `data-sourcepos`,
+    the value is final -/
+def Final (n : Node) : Prop := (∀ nv ∈ n.attrs, nv.1 = aSourcepos) ∧ KindOK false n.kind
+
+theorem Spliced.final {n : Node} (h : Spliced false n) : Final n :=
+  ⟨by rw [h.1]; simp, h.2⟩
+
+/-- the callback never panics (`C15.getPositions_spec`) and pushes exactly the positions of the
+    specification of C15 -/
+theorem sourceposAttrs_eq (src : List Char) (range : Option (Nat × Nat))
+    (attrs : List (List Char × List Char)) :
+    sourceposAttrs src (SourceMap.mkMarks src) range attrs =
+      .ok (match range with
+           | none => attrs
+           | some r => attrs ++ [(aSourcepos, sourceposValue (SourceMap.specRange src r))]) := by
+  unfold sourceposAttrs
+  cases range with
+  | none => rfl
+  | some r => obtain ⟨a, b⟩ := r; simp only [SourceMap.getPositions_spec]
+
+theorem sourceposAttrs_names {src : List Char} {marks : List SourceMap.Mark} {range : Option (Nat × Nat)}
+    {a a' : List (List Char × List Char)} (h : sourceposAttrs src marks range a = .ok a')
+    (ha : ∀ nv ∈ a, nv.1 = aSourcepos) : ∀ nv ∈ a', nv.1 = aSourcepos := by
+  unfold sourceposAttrs at h
+  split at h
+  · cases h; exact ha
+  · split at h
+    · cases h
+    · cases h
+      intro nv hnv
+      rcases List.mem_append.mp hnv with h1 | h1
+      · exact ha nv h1
+      · simp at h1; subst h1; rfl
+
+mutual
+theorem sourceposNode_every {src : List Char} {marks : List SourceMap.Mark} (t t' : Node)
+    (he : Every Final t) (h : sourceposNode src marks t = .ok t') : Every Final t' ∧ t'.kind = t.kind := by
+  match t with
+  | ⟨k, r, a, cs⟩ =>
+    simp only [sourceposNode] at h
+    split at h
+    · cases h
+    · rename_i a' ha
+      split at h
+      · cases h
+      · rename_i cs' hcs
+        cases h
+        exact ⟨.mk _ ⟨sourceposAttrs_names ha he.here.1, he.here.2⟩
+          (sourceposList_every cs cs' he.child hcs), rfl⟩
+theorem sourceposList_every {src : List Char} {marks : List SourceMap.Mark} (cs cs' : List Node)
+    (he : ∀ c ∈ cs, Every Final c) (h : sourceposList src marks cs = .ok cs') :
+    ∀ c ∈ cs', Every Final c := by
+  match cs with
+  | [] => simp [sourceposList] at h; subst h; simp
+  | c :: r =>
+    simp only [sourceposList] at h
+    split at h
+    · cases h
+    · rename_i c' hc
+      split at h
+      · cases h
+      · rename_i r' hr
+        cases h
+        intro x hx
+        rcases List.mem_cons.mp hx with rfl | hx
+        · exact (sourceposNode_every c _ (he c (by simp)) hc).1
+        · exact sourceposList_every r r' (fun y hy => he y (List.mem_cons_of_mem _ hy)) hr x hx
+end
+
+mutual
+/-- `SyntaxPosRule` never panics -/
+theorem sourceposNode_total (src : List Char) (t : Node) :
+    ∃ t', sourceposNode src (SourceMap.mkMarks src) t = .ok t' := by
+  match t with
+  | ⟨k, r, a, cs⟩ =>
+    obtain ⟨cs', hcs⟩ := sourceposList_total src cs
+    simp only [sourceposNode, sourceposAttrs_eq, hcs]
+    exact ⟨_, rfl⟩
+theorem sourceposList_total (src : List Char) (cs : List Node) :
+    ∃ cs', sourceposList src (SourceMap.mkMarks src) cs = .ok cs' := by
+  match cs with
+  | [] => exact ⟨[], rfl⟩
+  | c :: r =>
+    obtain ⟨c', hc⟩ := sourceposNode_total src c
+    obtain ⟨r', hr⟩ := sourceposList_total src r
+    simp only [sourceposList, hc, hr]
+    exact ⟨_, rfl⟩
+end
+
+/-! ## step 4: the projection to `NodeRender.Node` -/
+
+mutual
+theorem toRender_nodes (lp : List Char) (t : Node) (he : Every Final t) :
+    ∀ m ∈ NodeRender.nodes (toRender lp t), ∃ k, m.kind = Kind.toRender lp k ∧ KindOK false k ∧
+      ∀ nv ∈ m.attrs, nv.1 = aSourcepos := by
+  match t with
+  | ⟨k, r, a, cs⟩ =>
+    intro m hm
+    simp only [toRender, NodeRender.nodes, List.mem_cons] at hm
+    rcases hm with rfl | hm
+    · exact ⟨k, rfl, he.here.2, he.here.1⟩
+    · exact toRenderList_nodes lp cs he.child m hm
+theorem toRenderList_nodes (lp : List Char) (cs : List Node) (he : ∀ c ∈ cs, Every Final c) :
+    ∀ m ∈ NodeRender.nodesList (toRenderList lp cs), ∃ k, m.kind = Kind.toRender lp k ∧ KindOK false k ∧
+      ∀ nv ∈ m.attrs, nv.1 = aSourcepos := by
+  match cs with
+  | [] => simp [toRenderList, NodeRender.nodesList]
+  | c :: r =>
+    intro m hm
+    simp only [toRenderList, NodeRender.nodesList, List.mem_append] at hm
+    rcases hm with hm | hm
+    · exact toRender_nodes lp c (he c (by simp)) m hm
+    · exact toRenderList_nodes lp r (fun y hy => he y (List.mem_cons_of_mem _ hy)) m hm
+end
+
+/-- the model has no html kinds: no value projects to `HtmlBlock` / `HtmlInline` -/
+theorem toRender_not_html (lp : List Char) (k : Kind) :
+    (∀ c, Kind.toRender lp k ≠ .htmlBlock c) ∧ (∀ c, Kind.toRender lp k ≠ .htmlInline c) := by
+  constructor <;> intro c h
+  all_goals (
+    cases k with
+    | blk b => cases b <;> simp [Kind.toRender] at h
+    | inl v =>
+      cases v with
+      | wrap w m => cases w <;> simp [Kind.toRender] at h
+      | _ => simp [Kind.toRender] at h)
+
+/-- a final value projects to a kind whose `render` does not panic -/
+theorem toRender_level (lp : List Char) (k : Kind) (hk : KindOK false k) :
+    (∀ l, Kind.toRender lp k = .atx l → 1 ≤ l ∧ l ≤ 6) ∧
+    (∀ l, Kind.toRender lp k = .setext l → 1 ≤ l ∧ l ≤ 2) ∧ Kind.toRender lp k ≠ .placeholder := by
+  cases k with
+  | blk b =>
+    cases b <;> simp only [Kind.toRender, KindOK, BlkOK] at hk ⊢ <;> simp
+    all_goals (first | exact hk | (intro l e; subst e; exact hk))
+  | inl v =>
+    cases v with
+    | wrap w m => cases w <;> simp [Kind.toRender]
+    | emphMarker m l r o c => simp [KindOK, Kind.isMarker] at hk
+    | _ => simp [Kind.toRender]
+
+/-- **From the tree invariant to the three hypotheses of `NodeRender.safe_output`.** -/
+theorem final_hyps (lp : List Char) (t : Node) (he : Every Final t) :
+    NodeRender.Renderable (toRender lp t) ∧ NodeRender.HtmlFree (toRender lp t) ∧
+      NodeRender.AttrsSourcepos (toRender lp t) := by
+  apply NodeRender.hyps_of_all_nodes
+  · intro m hm
+    obtain ⟨k, hk, hok, _⟩ := toRender_nodes lp t he m hm
+    rw [hk]
+    exact toRender_level lp k hok
+  · intro m hm
+    obtain ⟨k, hk, _, _⟩ := toRender_nodes lp t he m hm
+    rw [hk]
+    exact toRender_not_html lp k
+  · intro m hm
+    obtain ⟨k, _, _, ha⟩ := toRender_nodes lp t he m hm
+    exact ha
+
+/-! ## the tree `parseDoc` returns -/
+
+theorem hasEmph_inlineCfg (cfg : DocCfg) (refs : Refs.RefMap) : (cfg.inlineCfg refs).hasEmph = cfg.hasJoin := rfl
+
+/-- **The invariant of the parsed tree.**  Whatever `parseDoc` returns is rooted at `Root` and every
+    node of it, at any depth, is `Final`: its attributes are all `data-sourcepos` and its value is
+    final — no `InlineRoot` (`spliceList_every`: the walk replaces every one; the analogue of
+    `C14.splice_removes_inlineroot` with the real inline parser plugged in), no `EmphMarker`
+    (`joinNode_every` when an emphasis-like rule is configured, `Inline.notMarker_good` when none is: then
+    no rule creates one), ATX levels in `1..6`, setext levels in `1..2` (`Block.parseBlocks_wf`).
+    For EVERY configuration (any chains, any `max_nesting`, with or without `sourcepos`). -/
+theorem parseDoc_final {cfg : DocCfg} {src : List Char} {t : Node} (h : parseDoc cfg src = .ok t) :
+    Every Final t ∧ t.kind = .blk .root := by
+  unfold parseDoc at h
+  split at h
+  · cases h
+  · rename_i root refs hb
+    obtain ⟨hroot, hwf⟩ := Block.parseBlocks_wf hb
+    unfold afterBlocks at h
+    split at h
+    · cases h
+    · rename_i t0 hs
+      obtain ⟨he0, hk0⟩ := spliceNode_every hwf hroot hs
+      rw [hasEmph_inlineCfg] at he0
+      -- after the (optional) join pass
+      have h1 : Every (Spliced false) (if cfg.hasJoin = true then joinNode t0 else t0) ∧
+          (if cfg.hasJoin = true then joinNode t0 else t0).kind = .blk .root := by
+        cases hj : cfg.hasJoin with
+        | true =>
+          rw [hj] at he0
+          simp only [if_true]
+          exact ⟨joinNode_every he0 (by rw [hk0]; rfl), by rw [joinNode_kind, hk0]⟩
+        | false =>
+          rw [hj] at he0
+          simp only [Bool.false_eq_true, if_false]
+          exact ⟨he0, hk0⟩
+      have h2 := h1.1.imp (fun n => Spliced.final)
+      simp only at h
+      split at h
+      · obtain ⟨h3, h4⟩ := sourceposNode_every _ _ h2 h
+        exact ⟨h3, by rw [h4]; exact h1.2⟩
+      · cases h
+        exact ⟨h2, h1.2⟩
+
+/-- a panic of `parseDoc` is a panic of the block pass or of one of the inline runs: the splice
+    walk, the join pass and `SyntaxPosRule` add none (`C15.getPositions_spec`) -/
+theorem parseDoc_panic {cfg : DocCfg} {src : List Char} {e : Panic} (h : parseDoc cfg src = .error e) :
+    (∃ p, e = .block p) ∨ (∃ p, e = .inline p) := by
+  unfold parseDoc at h
+  split at h
+  · cases h; exact .inl ⟨_, rfl⟩
+  · rename_i root refs hb
+    unfold afterBlocks at h
+    split at h
+    · rename_i e' he'
+      cases h
+      exact .inr (spliceNode_panic _ _ he')
+    · simp only at h
+      split at h
+      · obtain ⟨t', ht'⟩ := sourceposNode_total src (if cfg.hasJoin = true then joinNode _ else _)
+        rw [ht'] at h
+        cases h
+      · cases h
+
+/-! ## 1. `doc_output_html_free` -/
+
+/-- **`doc_output_html_free`.**  For every configuration of the model (html-free by construction:
+    its chains range over the nine cmark block rules and the ten html-free inline rules, in any
+    subset and order) and every source: the parsed tree has no `HtmlBlock` / `HtmlInline` node (the
+    parser model cannot create one), and the only attribute any node carries is `data-sourcepos`
+    (`ol start`, `code class`, `a href title`, `img src alt title` are produced inside `render`). -/
+theorem doc_output_html_free (cfg : DocCfg) (src : List Char) (t : Node) (h : parseDoc cfg src = .ok t) :
+    NodeRender.HtmlFree (toRender cfg.langPrefix t) ∧ NodeRender.AttrsSourcepos (toRender cfg.langPrefix t) :=
+  have := final_hyps cfg.langPrefix t (parseDoc_final h).1
+  ⟨this.2.1, this.2.2⟩
+
+/-! ## 2. `doc_output_renderable`, `doc_render_total` -/
+
+/-- **`doc_output_renderable`.**  NO condition on the configuration is needed: for every chain pair,
+    every `max_nesting`, with or without `sourcepos`, the parsed tree is `Renderable` — every ATX level
+    is in `1..6` and every setext level in `1..2` (block model: `Block.parseBlocks_wf`), every
+    `InlineRoot` has been replaced (`spliceList_every`), and no `EmphMarker` is left: WITH an
+    emphasis-like rule `FragmentsJoin` is in the core chain and turns every one into text
+    (`joinNode_every`; cf. `Inline.no_placeholder_after_finish`), WITHOUT one there is no join pass and
+    no marker is ever created (`Inline.notMarker_good`). -/
+theorem doc_output_renderable (cfg : DocCfg) (src : List Char) (t : Node) (h : parseDoc cfg src = .ok t) :
+    NodeRender.Renderable (toRender cfg.langPrefix t) :=
+  (final_hyps cfg.langPrefix t (parseDoc_final h).1).1
+
+/-- **`doc_render_total`.**  `render` / `xrender` of a parsed tree never panic: no
+    `unimplemented!` (placeholder), no `TAG[level - 1]` out of range, no panic in `unescape_all`. -/
+theorem doc_render_total (cfg : DocCfg) (src : List Char) (t : Node) (h : parseDoc cfg src = .ok t) :
+    ∃ evs, NodeRender.render cfg.entity (toRender cfg.langPrefix t) = .ok evs ∧
+      renderEvents cfg t = .ok evs ∧ ∀ x, renderDoc x cfg src = .ok (Render.serialize x evs) := by
+  obtain ⟨evs, he⟩ := (NodeRender.render_total cfg.entity _).mpr (doc_output_renderable cfg src t h)
+  refine ⟨evs, he, by simp [renderEvents, he], fun x => ?_⟩
+  simp [renderDoc, h, renderEvents, he]
+
+/-- the only panics of the whole pipeline `src ↦ html` are those of the block pass and of the
+    inline runs -/
+theorem renderDoc_panic {x : Bool} {cfg : DocCfg} {src : List Char} {e : Panic}
+    (h : renderDoc x cfg src = .error e) : (∃ p, e = .block p) ∨ (∃ p, e = .inline p) := by
+  unfold renderDoc at h
+  split at h
+  · rename_i e' he'; cases h; exact parseDoc_panic he'
+  · rename_i t ht
+    obtain ⟨evs, _, he, _⟩ := doc_render_total cfg src t ht
+    rw [he] at h
+    cases h
+
+/-! ## 3. `doc_safe_output` (C03 at document level) -/
+
+open MdIt.Render in
+/-- the safe output language of C03, as a predicate on the returned string: it is the flattening
+    of a `WellFormed` piece list over the fixed vocabulary `NodeRender.shippedVocab` (known elements,
+    per-element attribute names, properly nested and closed), every character agrees with the role
+    its position has, every `<` is the first and every `>` the last character of a tag piece, every
+    `&` starts one of `&amp; &lt; &gt; &quot;` -/
+def SafeHtml (out : List Char) : Prop :=
+  ∃ ps, out = flattenP ps ∧ WellFormed NodeRender.shippedVocab ps ∧
+    ((flattenP ps).length = (rolesP ps).length ∧
+      ∀ (i : Nat) (c : Char), (flattenP ps)[i]? = some c → ∃ r, (rolesP ps)[i]? = some r ∧ Agree c r) ∧
+    (∀ i, (flattenP ps)[i]? = some '<' →
+      ∃ pre p post, ps = pre ++ p :: post ∧ p.isTag = true ∧ i = (flattenP pre).length) ∧
+    (∀ i, (flattenP ps)[i]? = some '>' →
+      ∃ pre p post, ps = pre ++ p :: post ∧ p.isTag = true ∧
+        i + 1 = (flattenP pre).length + p.str.length) ∧
+    (∀ i, (flattenP ps)[i]? = some '&' → StartsEntity ((flattenP ps).drop i))
+
+/-- **`doc_safe_output` (C03 for documents).**  For EVERY configuration of the model (any subset /
+    order of the html-free rules, any `max_nesting`, with and without `data-sourcepos`) and EVERY
+    source the parser model accepts: rendering does not panic and, in HTML and in XHTML mode, the
+    returned string is in the safe output language `SafeHtml` — by `NodeRender.safe_output`, whose
+    three hypotheses are `doc_output_renderable` and `doc_output_html_free`.  No input can inject an
+    element, an attribute or an unescaped quote. -/
+theorem doc_safe_output (cfg : DocCfg) (src : List Char) (t : Node) (h : parseDoc cfg src = .ok t) :
+    ∀ x : Bool, ∃ out, renderDoc x cfg src = .ok out ∧ SafeHtml out := by
+  obtain ⟨hr, hf, ha⟩ := final_hyps cfg.langPrefix t (parseDoc_final h).1
+  obtain ⟨evs, he, hx⟩ := NodeRender.safe_output cfg.entity _ hr hf ha
+  intro x
+  obtain ⟨_, ps, hser, _, hwf, h1, h2, h3, h4⟩ := hx x
+  refine ⟨Render.serialize x evs, ?_, ps, hser, hwf, h1, h2, h3, h4⟩
+  simp [renderDoc, h, renderEvents, he]
+
+/-- the same without mentioning the tree: whenever `renderDoc` returns, what it returns is safe -/
+theorem doc_safe_output' (x : Bool) (cfg : DocCfg) (src : List Char) (out : List Char)
+    (h : renderDoc x cfg src = .ok out) : SafeHtml out := by
+  cases hp : parseDoc cfg src with
+  | error e => simp [renderDoc, hp] at h
+  | ok t =>
+    obtain ⟨out', h1, h2⟩ := doc_safe_output cfg src t hp x
+    rw [h] at h1
+    cases h1
+    exact h2
+
+/-! ## 4. `doc_deterministic`, `doc_pure` (C07 at document level) -/
+
+/-- **`doc_deterministic`.**  Tree and HTML are functions of `(cfg, src)`: two runs agree. -/
+theorem doc_deterministic (cfg : DocCfg) (src : List Char) (x : Bool)
+    (r₁ r₂ : Except Panic Node) (h₁ h₂ : Except Panic (List Char))
+    (e₁ : parseDoc cfg src = r₁) (e₂ : parseDoc cfg src = r₂)
+    (f₁ : renderDoc x cfg src = h₁) (f₂ : renderDoc x cfg src = h₂) : r₁ = r₂ ∧ h₁ = h₂ :=
+  ⟨e₁.symm.trans e₂, f₁.symm.trans f₂⟩
+
+/-- **`doc_pure`.**  One parser value, any history: the result for `src` in a sequence of documents
+    parsed one after the other with the same configuration is the result of a fresh parse — whatever
+    was parsed before (`before`) or is parsed afterwards.  (`parseDoc` has no state argument and no
+    result besides the tree, so the sequence IS `map`.  That the chains `cfg` holds — the lazily
+    compiled `Ruler`s and the text scanner's stop set — are themselves functions of the plugin
+    configuration only is `Props/C07`, `Props/C08`, `Props/C09`.) -/
+theorem doc_pure (cfg : DocCfg) (before after : List (List Char)) (src : List Char) (x : Bool) :
+    ((before ++ src :: after).map (parseDoc cfg))[before.length]? = some (parseDoc cfg src) ∧
+    ((before ++ src :: after).map (renderDoc x cfg))[before.length]? = some (renderDoc x cfg src) := by
+  simp
+
+/-- **The per-document state is local (block pass).**  The reference map the inline runs of a
+    document consult is the one its own block pass built, starting from the EMPTY map of
+    `BlockState::new` on a fresh `Root` (`root_env` is created in `MarkdownIt::parse`): no definition
+    of another document can be seen. -/
+theorem doc_refs_local (cfg : DocCfg) (src : List Char) :
+    (Block.BState.fresh src .root []).refs = [] ∧
+    parseDoc cfg src =
+      match Block.tokenize cfg.blockCfg (Block.fuelFor cfg.blockCfg src) (Block.BState.fresh src .root []) with
+      | .error e => .error (.block e)
+      | .ok s => afterBlocks cfg src ⟨s.nodeKind, some (0, Lines.byteLen src), s.children⟩ s.refs := by
+  refine ⟨rfl, ?_⟩
+  unfold parseDoc Block.parseBlocks
+  split <;> rename_i h <;> split at h <;> simp_all
+
+/-- **The per-paragraph state is local (inline pass).**  Every `InlineRoot` is parsed from a fresh
+    `InlineState`: empty `skip_token` memo, empty code-span cache, no `OpenersBottom`, no children,
+    level 0 — nothing of another paragraph (or document) is visible to it. -/
+theorem inline_state_local (icfg : Inline.Cfg) (content : List Char) (mapping : InlineOps.Srcmap) :
+    (Inline.IState.init content mapping).cache = [] ∧
+    (Inline.IState.init content mapping).backticks = CodePair.Cache.empty ∧
+    (Inline.IState.init content mapping).bottoms = [] ∧
+    (Inline.IState.init content mapping).children = [] ∧
+    (Inline.IState.init content mapping).level = 0 ∧
+    Inline.parseInline icfg content mapping =
+      match Inline.tokenize icfg (Inline.topFuel icfg content) (Inline.IState.init content mapping) with
+      | .error e => .error e
+      | .ok st => .ok st.children :=
+  ⟨rfl, rfl, rfl, rfl, rfl, rfl⟩
+
+/-! ## 5. `doc_tree_wf` (C14 at document level) -/
+
+def Kind.isList : Kind → Bool
+  | .blk (.bulletList _) => true
+  | .blk (.orderedList _ _) => true
+  | _ => false
+
+/-- the leaf blocks with inline content -/
+def Kind.isTextBlock : Kind → Bool
+  | .blk .paragraph => true
+  | .blk (.atx _) => true
+  | .blk (.setext _ _) => true
+  | _ => false
+
+/-- the leaf blocks without children -/
+def Kind.isBlockLeaf : Kind → Bool
+  | .blk (.hr _ _) => true
+  | .blk (.codeBlock _) => true
+  | .blk (.codeFence _ _ _ _) => true
+  | _ => false
+
+def Kind.isInlineRoot : Kind → Bool
+  | .blk (.inlineRoot _ _) => true
+  | _ => false
+
+def Kind.isTextK : Kind → Bool
+  | .inl (.text _) => true
+  | _ => false
+
+/-- no `Text` with empty content among the siblings -/
+def NoEmptyTextK (ks : List Kind) : Prop := Kind.inl (.text []) ∉ ks
+
+/-- no two adjacent `Text` siblings -/
+def NoAdjTextK : List Kind → Prop
+  | [] => True
+  | k :: r => (∀ k', r.head? = some k' → ¬ (k.isTextK = true ∧ k'.isTextK = true)) ∧ NoAdjTextK r
+
+/-- **The local well-formedness condition of C14** on a node of kind `k` whose children have the
+    kinds `ks` (in order).  `para`: the paragraph rule is configured (the quantifier of C14);
+    `markers`: `EmphMarker`s are still allowed (the tree before `FragmentsJoin`); `nf`: the text normal
+    form is claimed. -/
+structure LocK (para markers nf : Bool) (k : Kind) (ks : List Kind) : Prop where
+  /-- no `InlineRoot` placeholder -/
+  noInlRoot : k.isInlineRoot = false
+  /-- no `EmphMarker` placeholder -/
+  noMarker : k.isMarker = true → markers = true
+  /-- `Root` is nobody's child -/
+  noRoot : Kind.blk .root ∉ ks
+  /-- lists contain list items only -/
+  listKids : k.isList = true → ∀ c ∈ ks, c = .blk .listItem
+  /-- list items occur under lists only -/
+  itemParent : Kind.blk .listItem ∈ ks → k.isList = true
+  /-- inline nodes occur only under paragraphs / headings, (tight) list items and inline nodes -/
+  inlinePlace : para = true → ∀ c ∈ ks, c.isInline = true →
+    k.isTextBlock = true ∨ k = .blk .listItem ∨ k.isInline = true
+  /-- an inline node has inline children only -/
+  inlineKids : k.isInline = true → ∀ c ∈ ks, c.isInline = true
+  /-- a paragraph / heading has inline children only -/
+  textBlockKids : k.isTextBlock = true → ∀ c ∈ ks, c.isInline = true
+  /-- thematic breaks, code blocks and fences are childless -/
+  blockLeaf : k.isBlockLeaf = true → ks = []
+  /-- no empty `Text`, no two adjacent `Text`s -/
+  textNF : nf = true → NoEmptyTextK ks ∧ NoAdjTextK ks
+
+def kinds (cs : List Node) : List Kind := cs.map (·.kind)
+
+def LocN (para markers nf : Bool) (n : Node) : Prop := LocK para markers nf n.kind (kinds n.children)
+
+/-- the well-formedness predicate of C14 on a document tree: `Root` on top, `LocK` at every node -/
+def WF (para nf : Bool) (t : Node) : Prop := t.kind = .blk .root ∧ Every (LocN para false nf) t
+
+theorem mem_kinds {cs : List Node} {k : Kind} : k ∈ kinds cs ↔ ∃ c ∈ cs, c.kind = k := by
+  simp [kinds]
+
+/-! ### step 1: the splice walk -/
+
+/-- an inline node over inline children -/
+theorem locK_inline {para markers : Bool} {k : Kind} {ks : List Kind} (hk : k.isInline = true)
+    (hm : k.isMarker = true → markers = true) (hks : ∀ c ∈ ks, c.isInline = true) :
+    LocK para markers false k ks := by
+  cases k with
+  | blk b => cases hk
+  | inl v =>
+    refine ⟨rfl, hm, ?_, ?_, ?_, ?_, fun _ => hks, ?_, ?_, ?_⟩
+    · intro h; cases hks _ h
+    · intro h; cases h
+    · intro h; cases hks _ h
+    · intro _ _ _ _; exact .inr (.inr rfl)
+    · intro h; cases h
+    · intro h; cases h
+    · intro h; cases h
+
+mutual
+theorem ofInline_kind (n : Inline.Node) : (ofInline n).kind = .inl n.val := by
+  match n with
+  | ⟨v, r, cs⟩ => rfl
+theorem ofInlineList_inline (cs : List Inline.Node) : ∀ c ∈ ofInlineList cs, c.kind.isInline = true := by
+  match cs with
+  | [] => simp [ofInlineList]
+  | c :: r =>
+    intro x hx
+    simp only [ofInlineList, List.mem_cons] at hx
+    rcases hx with rfl | hx
+    · rw [ofInline_kind]; rfl
+    · exact ofInlineList_inline r x hx
+end
+
+theorem kinds_inline {cs : List Node} (h : ∀ c ∈ cs, c.kind.isInline = true) :
+    ∀ k ∈ kinds cs, k.isInline = true := by
+  intro k hk
+  obtain ⟨c, hc, rfl⟩ := mem_kinds.mp hk
+  exact h c hc
+
+mutual
+theorem ofInline_wf {para : Bool} {icfg : Inline.Cfg} (n : Inline.Node)
+    (h : Inline.AllVals (ValOK icfg) n) : Every (LocN para icfg.hasEmph false) (ofInline n) := by
+  match n with
+  | ⟨v, r, cs⟩ =>
+    rw [Inline.AllVals_eq] at h
+    have hsp := (ofInline_every (icfg := icfg) ⟨v, r, cs⟩ (by rw [Inline.AllVals_eq]; exact h)).here.2
+    unfold ofInline at hsp ⊢
+    refine .mk _ ?_ (ofInlineList_wf cs h.2)
+    exact locK_inline rfl (by simpa [KindOK] using hsp) (kinds_inline (ofInlineList_inline cs))
+theorem ofInlineList_wf {para : Bool} {icfg : Inline.Cfg} (cs : List Inline.Node)
+    (h : Inline.AllValsList (ValOK icfg) cs) :
+    ∀ c ∈ ofInlineList cs, Every (LocN para icfg.hasEmph false) c := by
+  match cs with
+  | [] => simp [ofInlineList]
+  | c :: r =>
+    simp only [Inline.AllValsList] at h
+    intro x hx
+    simp only [ofInlineList, List.mem_cons] at hx
+    rcases hx with rfl | hx
+    · exact ofInline_wf c h.1
+    · exact ofInlineList_wf r h.2 x hx
+end
+
+/-- is the block value the `InlineRoot` placeholder -/
+def IsInl (k : Block.Kind) : Prop := ∃ t m, k = .inlineRoot t m
+
+theorem spliceNode_kind {icfg : Inline.Cfg} {b : Block.BNode} {t : Node} (h : spliceNode icfg b = .ok t) :
+    t.kind = .blk b.kind := by
+  obtain ⟨k, r, cs⟩ := b
+  simp only [spliceNode] at h
+  split at h
+  · cases h
+  · cases h; rfl
+
+/-- where the kinds of the spliced children come from: an inline kind stands for (part of) an
+    `InlineRoot` child, any other kind is the kind of a non-placeholder child -/
+theorem spliceList_kinds {icfg : Inline.Cfg} : ∀ (cs : List Block.BNode) (out : List Node),
+    spliceList icfg cs = .ok out → ∀ k' ∈ kinds out,
+      (k'.isInline = true ∧ ∃ c ∈ cs, IsInl c.kind) ∨ (∃ c ∈ cs, k' = .blk c.kind ∧ ¬ IsInl c.kind)
+  | [], out, h => by simp [spliceList] at h; subst h; simp [kinds]
+  | c :: rest, out, h => by
+    simp only [spliceList] at h
+    split at h
+    · rename_i content mapping hck
+      split at h
+      · cases h
+      · rename_i ns hns
+        split at h
+        · cases h
+        · rename_i rest' hr
+          cases h
+          intro k' hk'
+          obtain ⟨x, hx, rfl⟩ := mem_kinds.mp hk'
+          rcases List.mem_append.mp hx with h1 | h1
+          · exact .inl ⟨ofInlineList_inline ns x h1, c, by simp, ⟨content, mapping, hck⟩⟩
+          · rcases spliceList_kinds rest rest' hr x.kind (mem_kinds.mpr ⟨x, h1, rfl⟩) with
+              ⟨hi, c', hc', hci⟩ | ⟨c', hc', hk, hci⟩
+            · exact .inl ⟨hi, c', List.mem_cons_of_mem _ hc', hci⟩
+            · exact .inr ⟨c', List.mem_cons_of_mem _ hc', hk, hci⟩
+    · rename_i hne
+      split at h
+      · cases h
+      · rename_i c' hc
+        split at h
+        · cases h
+        · rename_i rest' hr
+          cases h
+          intro k' hk'
+          obtain ⟨x, hx, rfl⟩ := mem_kinds.mp hk'
+          rcases List.mem_cons.mp hx with rfl | h1
+          · exact .inr ⟨c, by simp, spliceNode_kind hc, fun ⟨t, m, e⟩ => hne t m e⟩
+          · rcases spliceList_kinds rest rest' hr x.kind (mem_kinds.mpr ⟨x, h1, rfl⟩) with
+              ⟨hi, c', hc', hci⟩ | ⟨c', hc', hk, hci⟩
+            · exact .inl ⟨hi, c', List.mem_cons_of_mem _ hc', hci⟩
+            · exact .inr ⟨c', List.mem_cons_of_mem _ hc', hk, hci⟩
+
+theorem oneInl_all {cs : List Block.BNode} (h : Block.OneInl cs) : ∀ c ∈ cs, IsInl c.kind := by
+  obtain ⟨t, m, rfl⟩ := h
+  intro c hc
+  simp at hc
+  subst hc
+  exact ⟨t, m, rfl⟩
+
+/-- a block node over its spliced children -/
+theorem locK_block {para markers : Bool} {k : Block.Kind} {cs : List Block.BNode} {ks : List Kind}
+    (hloc : Block.LocB para k cs) (hk : ¬ IsInl k) (hnil : cs = [] → ks = [])
+    (hks : ∀ k' ∈ ks, (k'.isInline = true ∧ ∃ c ∈ cs, IsInl c.kind) ∨
+      (∃ c ∈ cs, k' = .blk c.kind ∧ ¬ IsInl c.kind)) :
+    LocK para markers false (.blk k) ks := by
+  -- three facts about the children's kinds, by cases on `k`
+  have noItemInl : ∀ c ∈ cs, c.kind = .listItem → ¬ IsInl c.kind := by
+    intro c _ e ⟨t, m, e'⟩; rw [e] at e'; cases e'
+  -- a list item among the new kinds comes from a list item among the old children
+  have item_src : Kind.blk .listItem ∈ ks → ∃ c ∈ cs, c.kind = .listItem := by
+    intro h
+    rcases hks _ h with ⟨hi, _⟩ | ⟨c, hc, e, _⟩
+    · cases hi
+    · exact ⟨c, hc, by injection e with e; exact e.symm⟩
+  -- an inline kind among the new kinds comes from a placeholder among the old children
+  have inl_src : ∀ k' ∈ ks, k'.isInline = true → ∃ c ∈ cs, IsInl c.kind := by
+    intro k' hk' hi
+    rcases hks _ hk' with ⟨_, h⟩ | ⟨c, _, e, _⟩
+    · exact h
+    · rw [e] at hi; cases hi
+  refine ⟨?_, (by intro h; cases h), ?_, ?_, ?_, ?_, (by intro h; cases h), ?_, ?_, (by intro h; cases h)⟩
+  · cases k <;> first | rfl | exact absurd ⟨_, _, rfl⟩ hk
+  · intro h
+    rcases hks _ h with ⟨hi, _⟩ | ⟨c, hc, e, _⟩
+    · cases hi
+    · injection e with e; exact hloc.1 c hc e.symm
+  · intro hl k' hk'
+    have hall : ∀ c ∈ cs, c.kind = .listItem := by
+      cases k <;> simp [Kind.isList] at hl <;> exact hloc.2
+    rcases hks _ hk' with ⟨_, c, hc, hci⟩ | ⟨c, hc, e, _⟩
+    · exact absurd hci (noItemInl c hc (hall c hc))
+    · rw [e, hall c hc]
+  · intro h
+    obtain ⟨c, hc, hci⟩ := item_src h
+    cases k
+    case bulletList => rfl
+    case orderedList => rfl
+    case atx l => exact absurd (oneInl_all hloc.2.2 c hc) (noItemInl c hc hci)
+    case setext l m => exact absurd (oneInl_all hloc.2.2 c hc) (noItemInl c hc hci)
+    case paragraph => exact absurd (oneInl_all hloc.2 c hc) (noItemInl c hc hci)
+    case hr => have := hloc.2; simp only at this; rw [this] at hc; cases hc
+    case codeBlock => have := hloc.2; simp only at this; rw [this] at hc; cases hc
+    case codeFence => have := hloc.2; simp only at this; rw [this] at hc; cases hc
+    case inlineRoot => exact absurd ⟨_, _, rfl⟩ hk
+    case listItem => exact absurd hci (hloc.2 c hc)
+    case root => exact absurd hci (hloc.2 c hc).1
+    case blockquote => exact absurd hci (hloc.2 c hc).1
+  · intro hp k' hk' hi
+    obtain ⟨c, hc, t, m, hci⟩ := inl_src k' hk' hi
+    cases k
+    case atx => exact .inl rfl
+    case setext => exact .inl rfl
+    case paragraph => exact .inl rfl
+    case listItem => exact .inr (.inl rfl)
+    case bulletList => have := hloc.2 c hc; rw [hci] at this; cases this
+    case orderedList => have := hloc.2 c hc; rw [hci] at this; cases this
+    case hr => have := hloc.2; simp only at this; rw [this] at hc; cases hc
+    case codeBlock => have := hloc.2; simp only at this; rw [this] at hc; cases hc
+    case codeFence => have := hloc.2; simp only at this; rw [this] at hc; cases hc
+    case inlineRoot => exact absurd ⟨_, _, rfl⟩ hk
+    case root => exact absurd hci ((hloc.2 c hc).2 hp t m)
+    case blockquote => exact absurd hci ((hloc.2 c hc).2 hp t m)
+  · intro htb k' hk'
+    have hall : ∀ c ∈ cs, IsInl c.kind := by
+      cases k <;> simp [Kind.isTextBlock] at htb
+      · exact oneInl_all hloc.2
+      · exact oneInl_all hloc.2.2
+      · exact oneInl_all hloc.2.2
+    rcases hks _ hk' with ⟨hi, _⟩ | ⟨c, hc, _, hci⟩
+    · exact hi
+    · exact absurd (hall c hc) hci
+  · intro hl
+    apply hnil
+    cases k <;> simp [Kind.isBlockLeaf] at hl <;> exact hloc.2
+
+theorem spliceList_nil {icfg : Inline.Cfg} {out : List Node} (h : spliceList icfg [] = .ok out) : out = [] := by
+  simp [spliceList] at h; exact h
+
+mutual
+theorem spliceNode_wf' {para : Bool} {icfg : Inline.Cfg} (b : Block.BNode) (hw : Block.WFB para b)
+    (hk : ¬ IsInl b.kind) (t : Node) (h : spliceNode icfg b = .ok t) :
+    Every (LocN para icfg.hasEmph false) t := by
+  match b with
+  | ⟨k, r, cs⟩ =>
+    simp only [spliceNode] at h
+    split at h
+    · cases h
+    · rename_i cs' hcs
+      cases h
+      refine .mk _ ?_ (spliceList_wf cs hw.child cs' hcs)
+      exact locK_block hw.at hk (fun e => by subst e; exact congrArg kinds (spliceList_nil hcs))
+        (spliceList_kinds cs cs' hcs)
+theorem spliceList_wf {para : Bool} {icfg : Inline.Cfg} (cs : List Block.BNode)
+    (hw : ∀ c ∈ cs, Block.WFB para c) (out : List Node) (h : spliceList icfg cs = .ok out) :
+    ∀ c ∈ out, Every (LocN para icfg.hasEmph false) c := by
+  match cs with
+  | [] => simp [spliceList] at h; subst h; simp
+  | c :: rest =>
+    have hrest : ∀ x ∈ rest, Block.WFB para x := fun x hx => hw x (List.mem_cons_of_mem _ hx)
+    simp only [spliceList] at h
+    split at h
+    · split at h
+      · cases h
+      · rename_i ns hns
+        split at h
+        · cases h
+        · rename_i rest' hr
+          cases h
+          have hv := Inline.parseInline_vals icfg (valOK_good icfg) hns
+          intro x hx
+          rcases List.mem_append.mp hx with h1 | h1
+          · exact ofInlineList_wf ns hv x h1
+          · exact spliceList_wf rest hrest rest' hr x h1
+    · rename_i hne
+      split at h
+      · cases h
+      · rename_i c' hc
+        split at h
+        · cases h
+        · rename_i rest' hr
+          cases h
+          intro x hx
+          rcases List.mem_cons.mp hx with rfl | hx
+          · exact spliceNode_wf' c (hw c (by simp)) (fun ⟨t, m, e⟩ => hne t m e) _ hc
+          · exact spliceList_wf rest hrest rest' hr x hx
+end
+
+/-! ### step 2: `FragmentsJoin` — the text normal form -/
+
+theorem isText_eq (n : Node) : n.isText = n.kind.isTextK := by
+  unfold Node.isText Kind.isTextK
+  split <;> simp_all
+
+/-- pass 2 invariant: a text node that is directly followed by a text node is empty -/
+def LeftEmpty : List Node → Prop
+  | [] => True
+  | x :: r => (∀ y, r.head? = some y → x.isText = true → y.isText = true → x.content = []) ∧ LeftEmpty r
+
+theorem head_mergeLoop (cur : Node) (rest : List Node) :
+    ∃ h t, mergeLoop cur rest = h :: t ∧ h.isText = cur.isText := by
+  cases rest with
+  | nil => exact ⟨cur, [], rfl, rfl⟩
+  | cons nxt rest =>
+    simp only [mergeLoop]
+    split
+    · next hc =>
+      simp only [Bool.and_eq_true] at hc
+      exact ⟨_, _, rfl, by rw [hc.1]; rfl⟩
+    · exact ⟨_, _, rfl, rfl⟩
+
+theorem leftEmpty_mergeLoop (cur : Node) (rest : List Node) : LeftEmpty (mergeLoop cur rest) := by
+  induction rest generalizing cur with
+  | nil => simp [mergeLoop, LeftEmpty]
+  | cons nxt rest ih =>
+    simp only [mergeLoop]
+    split
+    · exact ⟨fun _ _ _ _ => rfl, ih _⟩
+    · next hc =>
+      refine ⟨?_, ih _⟩
+      obtain ⟨h, t, e, ht⟩ := head_mergeLoop nxt rest
+      intro y hy h1 h2
+      rw [e] at hy
+      simp only [List.head?_cons, Option.some.injEq] at hy
+      subst hy
+      rw [ht] at h2
+      simp [h1, h2] at hc
+
+theorem leftEmpty_mergeAll (l : List Node) : LeftEmpty (mergeAll l) := by
+  cases l with
+  | nil => simp [mergeAll, LeftEmpty]
+  | cons c r => exact leftEmpty_mergeLoop c r
+
+theorem keep_of_not_text (n : Node) (h : n.isText = false) : keep n = true := by
+  simp [keep, h]
+
+theorem filter_head_after_text (x : Node) (r : List Node) (h : LeftEmpty (x :: r))
+    (hx : x.isText = true) (hne : x.content ≠ []) :
+    ∀ y, (r.filter keep).head? = some y → y.isText = false := by
+  cases r with
+  | nil => simp
+  | cons y' r' =>
+    have hy' : y'.isText = false := by
+      cases hyt : y'.isText with
+      | false => rfl
+      | true => exact absurd (h.1 y' rfl hx hyt) hne
+    intro y hy
+    rw [List.filter_cons_of_pos (keep_of_not_text _ hy')] at hy
+    simp only [List.head?_cons, Option.some.injEq] at hy
+    subst hy; exact hy'
+
+theorem kinds_head? (l : List Node) : (kinds l).head? = l.head?.map (·.kind) := by
+  cases l <;> rfl
+
+theorem noAdj_filter_of_leftEmpty (l : List Node) (h : LeftEmpty l) : NoAdjTextK (kinds (l.filter keep)) := by
+  induction l with
+  | nil => simp [kinds, NoAdjTextK]
+  | cons x r ih =>
+    by_cases hk : keep x = true
+    · rw [List.filter_cons_of_pos hk]
+      refine ⟨?_, ih h.2⟩
+      intro k' hk' hxy
+      change (kinds (r.filter keep)).head? = some k' at hk'
+      rw [kinds_head?] at hk'
+      cases hh : (r.filter keep).head? with
+      | none => rw [hh] at hk'; cases hk'
+      | some y =>
+        rw [hh] at hk'
+        simp only [Option.map_some, Option.some.injEq] at hk'
+        subst hk'
+        rw [← isText_eq, ← isText_eq] at hxy
+        have hne : x.content ≠ [] := by
+          intro hc
+          simp [keep, hxy.1, hc] at hk
+        have := filter_head_after_text x r h hxy.1 hne y hh
+        rw [this] at hxy
+        exact absurd hxy.2 (by simp)
+    · rw [List.filter_cons_of_neg hk]
+      exact ih h.2
+
+theorem noEmpty_filter (l : List Node) : NoEmptyTextK (kinds (l.filter keep)) := by
+  intro h
+  obtain ⟨c, hc, hk⟩ := mem_kinds.mp h
+  have := (List.mem_filter.mp hc).2
+  simp [keep, Node.isText, Node.content, hk] at this
+
+/-- **the text normal form after `fragments_join`** (the proof of `C14.join_normal_form`, on the
+    document's node type): among the children it leaves there is no empty `Text` and there are no two
+    adjacent `Text`s -/
+theorem fragmentsJoin_nf (cs : List Node) :
+    NoEmptyTextK (kinds (fragmentsJoin cs)) ∧ NoAdjTextK (kinds (fragmentsJoin cs)) :=
+  ⟨noEmpty_filter _, noAdj_filter_of_leftEmpty _ (leftEmpty_mergeAll _)⟩
+
+theorem fragmentsJoin_nil : fragmentsJoin [] = [] := rfl
+
+/-! ### step 2: `FragmentsJoin` — the other conditions -/
+
+theorem isInline_textK {k : Kind} (h : k.isTextK = true) : k.isInline = true := by
+  cases k with
+  | blk b => cases h
+  | inl v => rfl
+
+/-- a kept child (`Retext`) keeps its local condition: same children; its kind is the old one or
+    `Text` instead of an inline kind -/
+theorem locN_retext {para : Bool} {c x : Node} (h : LocN para true false c) (hr : Retext c x) :
+    LocN para true false x := by
+  unfold LocN at h ⊢
+  rw [hr.1]
+  rcases hr.2.2 with e | ⟨et, ei⟩
+  · rw [e]; exact h
+  · rw [isText_eq] at et
+    have hxi := isInline_textK et
+    have hkids := h.inlineKids ei
+    refine ⟨?_, fun _ => rfl, h.noRoot, ?_, ?_, fun _ _ _ _ => .inr (.inr hxi), fun _ => hkids, ?_, ?_,
+      (by intro hc; cases hc)⟩
+    · cases hk : x.kind with
+      | blk b => rw [hk] at hxi; cases hxi
+      | inl v => rfl
+    · intro hl
+      cases hk : x.kind with
+      | blk b => rw [hk] at hxi; cases hxi
+      | inl v => rw [hk] at hl; cases hl
+    · intro hi; cases hkids _ hi
+    · intro hl
+      cases hk : x.kind with
+      | blk b => rw [hk] at hxi; cases hxi
+      | inl v => rw [hk] at hl; cases hl
+    · intro hl
+      cases hk : x.kind with
+      | blk b => rw [hk] at hxi; cases hxi
+      | inl v => rw [hk] at hl; cases hl
+
+/-- a node over the children `fragments_join` left it -/
+theorem locK_join {para : Bool} {k : Kind} {cs fj : List Node} (h : LocK para true false k (kinds cs))
+    (hm : k.isMarker = false) (hnil : cs = [] → fj = [])
+    (hrel : ∀ x ∈ fj, ∃ c ∈ cs, Retext c x)
+    (hnf : NoEmptyTextK (kinds fj) ∧ NoAdjTextK (kinds fj)) :
+    LocK para false true k (kinds fj) := by
+  -- the kind of a kept child: the old kind, or an inline kind instead of an inline kind
+  have src : ∀ k' ∈ kinds fj, ∃ k0 ∈ kinds cs, k' = k0 ∨ (k'.isInline = true ∧ k0.isInline = true) := by
+    intro k' hk'
+    obtain ⟨x, hx, rfl⟩ := mem_kinds.mp hk'
+    obtain ⟨c, hc, hr⟩ := hrel x hx
+    refine ⟨c.kind, mem_kinds.mpr ⟨c, hc, rfl⟩, ?_⟩
+    rcases hr.2.2 with e | ⟨et, ei⟩
+    · exact .inl e
+    · exact .inr ⟨isInline_of_isText et, ei⟩
+  refine ⟨h.noInlRoot, (by intro hc; rw [hm] at hc; cases hc), ?_, ?_, ?_, ?_, ?_, ?_, ?_, fun _ => hnf⟩
+  · intro hr
+    obtain ⟨k0, hk0, e | ⟨ei, _⟩⟩ := src _ hr
+    · rw [← e] at hk0; exact h.noRoot hk0
+    · cases ei
+  · intro hl k' hk'
+    obtain ⟨k0, hk0, e | ⟨_, ei⟩⟩ := src _ hk'
+    · rw [e]; exact h.listKids hl k0 hk0
+    · rw [h.listKids hl k0 hk0] at ei; cases ei
+  · intro hi
+    obtain ⟨k0, hk0, e | ⟨ei, _⟩⟩ := src _ hi
+    · rw [← e] at hk0; exact h.itemParent hk0
+    · cases ei
+  · intro hp k' hk' hi
+    obtain ⟨k0, hk0, e | ⟨_, ei⟩⟩ := src _ hk'
+    · exact h.inlinePlace hp k0 hk0 (by rw [← e]; exact hi)
+    · exact h.inlinePlace hp k0 hk0 ei
+  · intro hi k' hk'
+    obtain ⟨k0, hk0, e | ⟨ei, _⟩⟩ := src _ hk'
+    · rw [e]; exact h.inlineKids hi k0 hk0
+    · exact ei
+  · intro hi k' hk'
+    obtain ⟨k0, hk0, e | ⟨ei, _⟩⟩ := src _ hk'
+    · rw [e]; exact h.textBlockKids hi k0 hk0
+    · exact ei
+  · intro hl
+    have : cs = [] := by
+      have := h.blockLeaf hl
+      cases cs with
+      | nil => rfl
+      | cons c r => simp [kinds] at this
+    rw [hnil this]; rfl
+
+theorem kinds_map_joinNode (l : List Node) : kinds (l.map joinNode) = kinds l := by
+  simp [kinds, List.map_map, Function.comp_def, joinNode_kind]
+
+theorem joinNode_wf_aux {para : Bool} (k : Nat) : ∀ n : Node, nsize n ≤ k →
+    Every (LocN para true false) n → n.kind.isMarker = false →
+    Every (LocN para false true) (joinNode n) := by
+  induction k with
+  | zero => intro n hn; rw [nsize_eq] at hn; omega
+  | succ k ih =>
+    intro n hn he hm
+    rw [joinNode_eq, joinList_eq_map]
+    have hrel := fragmentsJoin_mem n.children
+    refine .mk _ ?_ ?_
+    · unfold LocN
+      simp only
+      rw [kinds_map_joinNode]
+      exact locK_join he.here hm (fun e => by rw [e]; rfl)
+        (fun x hx => by obtain ⟨c, hc, hr, _⟩ := hrel x hx; exact ⟨c, hc, hr⟩) (fragmentsJoin_nf _)
+    · intro y hy
+      simp only at hy
+      obtain ⟨x, hx, rfl⟩ := List.mem_map.mp hy
+      obtain ⟨c, hc, hr, hxm⟩ := hrel x hx
+      have hec := he.child c hc
+      have hsz : nsize x ≤ k := by
+        have h1 : nsize x = nsize c := by rw [nsize_eq, nsize_eq, hr.1]
+        have h2 := nsize_le_of_mem hc
+        rw [nsize_eq] at hn
+        omega
+      exact ih x hsz (hr.every (locN_retext hec.here hr) hec) hxm
+
+/-! ### step 3: `SyntaxPosRule` changes no kind -/
+
+mutual
+theorem sourceposNode_wf {a b c : Bool} {src : List Char} {marks : List SourceMap.Mark} (t t' : Node)
+    (he : Every (LocN a b c) t) (h : sourceposNode src marks t = .ok t') :
+    Every (LocN a b c) t' ∧ t'.kind = t.kind := by
+  match t with
+  | ⟨k, r, at_, cs⟩ =>
+    simp only [sourceposNode] at h
+    split at h
+    · cases h
+    · split at h
+      · cases h
+      · rename_i cs' hcs
+        cases h
+        obtain ⟨h1, h2⟩ := sourceposList_wf cs cs' he.child hcs
+        refine ⟨.mk _ ?_ h1, rfl⟩
+        have := he.here
+        unfold LocN at this ⊢
+        simp only at this ⊢
+        rw [h2]; exact this
+theorem sourceposList_wf {a b c : Bool} {src : List Char} {marks : List SourceMap.Mark} (cs cs' : List Node)
+    (he : ∀ x ∈ cs, Every (LocN a b c) x) (h : sourceposList src marks cs = .ok cs') :
+    (∀ x ∈ cs', Every (LocN a b c) x) ∧ kinds cs' = kinds cs := by
+  match cs with
+  | [] => simp [sourceposList] at h; subst h; simp
+  | x :: r =>
+    simp only [sourceposList] at h
+    split at h
+    · cases h
+    · rename_i x' hx
+      split at h
+      · cases h
+      · rename_i r' hr
+        cases h
+        obtain ⟨h1, h2⟩ := sourceposNode_wf x x' (he x (by simp)) hx
+        obtain ⟨h3, h4⟩ := sourceposList_wf r r' (fun y hy => he y (List.mem_cons_of_mem _ hy)) hr
+        refine ⟨?_, by simp only [kinds, List.map_cons] at h4 ⊢; rw [h2, h4]⟩
+        intro y hy
+        rcases List.mem_cons.mp hy with rfl | hy
+        · exact h1
+        · exact h3 y hy
+end
+
+/-! ### `doc_tree_wf` -/
+
+/-- is the default block rule (the paragraph rule) configured -/
+def DocCfg.hasPara (cfg : DocCfg) : Bool := cfg.blockChain.contains .paragraph
+
+/-- **`doc_tree_wf` (C14 for documents).**  The tree `parseDoc` returns is `WF`: rooted at `Root`, and
+    at EVERY node, at any depth (`LocK`):
+      * no parser-internal placeholder: no `InlineRoot` (`spliceList_wf`, cf.
+        `C14.splice_removes_inlineroot`), no `EmphMarker` (`joinNode_wf_aux`, `Inline.notMarker_good`);
+      * `Root` occurs nowhere below the top;
+      * a list has list items only, a list item occurs under a list only (cf. `Block.list_shape`);
+      * an inline node has inline children only; a paragraph / heading has inline children only;
+        thematic breaks, code blocks and fences are childless;
+      * when the paragraph rule is configured (`cfg.hasPara`, the quantifier of C14): inline nodes
+        occur only under paragraphs / headings, list items (tight lists) and inline nodes;
+      * when an emphasis-like rule is configured (`cfg.hasJoin`: `FragmentsJoin` runs): no sibling
+        list contains an empty `Text` or two adjacent `Text`s (`fragmentsJoin_nf`, the proof of
+        `C14.join_normal_form`).
+    For every configuration and every source; with or without `sourcepos`. -/
+theorem doc_tree_wf (cfg : DocCfg) (src : List Char) (t : Node) (h : parseDoc cfg src = .ok t) :
+    WF cfg.hasPara cfg.hasJoin t := by
+  refine ⟨(parseDoc_final h).2, ?_⟩
+  unfold parseDoc at h
+  split at h
+  · cases h
+  · rename_i root refs hb
+    obtain ⟨hroot, hwf⟩ := Block.parseBlocks_wf hb
+    unfold afterBlocks at h
+    split at h
+    · cases h
+    · rename_i t0 hs
+      have he0 := spliceNode_wf' root hwf (by rw [hroot]; rintro ⟨_, _, e⟩; cases e) t0 hs
+      have hk0 : t0.kind = .blk .root := by rw [spliceNode_kind hs, hroot]
+      rw [hasEmph_inlineCfg] at he0
+      have h1 : Every (LocN cfg.hasPara false cfg.hasJoin) (if cfg.hasJoin = true then joinNode t0 else t0) := by
+        cases hj : cfg.hasJoin with
+        | true =>
+          rw [hj] at he0
+          simp only [if_true]
+          exact joinNode_wf_aux _ t0 (Nat.le_refl _) he0 (by rw [hk0]; rfl)
+        | false =>
+          rw [hj] at he0
+          simp only [Bool.false_eq_true, if_false]
+          exact he0
+      simp only at h
+      split at h
+      · exact (sourceposNode_wf _ _ h1 h).1
+      · cases h
+        exact h1
+
+/-
+  OPEN (C14, the two clauses `doc_tree_wf` does not cover):
+   * "leaf kinds have no children" for the INLINE leaf kinds — `Text`, `TextSpecial`, `Softbreak`,
+     `Hardbreak` are childless, `CodeInline` / `Autolink` have exactly one `Text` child:
+        theorem doc_inline_leaves (h : parseDoc cfg src = .ok t) :
+            Every (fun n => n.kind.isInlineLeaf = true → n.children = []) t
+     Missing lemma (inline slice): a NODE-level invariant through the inline tokenizer,
+        `Inline.nodes_induction : (∀ created node, P node) → parseInline cfg c m = .ok ns → ∀ n ∈ ns, AllNodes P n`
+     (`Inline.vals_induction` / `parseInline_vals` are about the VALUES only and cannot say
+     `children = []`).  The block-level leaves are covered (`LocK.blockLeaf`).
+   * the text normal form when NO emphasis-like rule is configured (`cfg.hasJoin = false`; then there is
+     no join pass):
+        theorem doc_text_nf (h : parseDoc cfg src = .ok t) (hp : cfg.hasPara = true) : WF true true t
+     Missing lemmas: (a) inline slice — "the children `parseInline` returns contain no empty `Text`
+     and no two adjacent `Text`s" (listed OPEN in `Props/Inline.lean`; steps: `C14.push_no_adjacent`,
+     `C14.pop_no_adjacent`), for every nested child list as well; (b) block slice — "a list item never
+     holds two adjacent paragraphs" (tight lists put the texts of DIFFERENT `InlineRoot`s side by side
+     under the item; two paragraphs are always separated by a blank line, which makes the list loose).
+     With the join pass the clause is proved for ALL configurations, the paragraph rule included or
+     not (example below: without paragraph rule AND without join pass it is false).
+-/
+
+/-! ## C15 at document level: what `data-sourcepos` says -/
+
+/-- the stages of `parseDoc`: a tree `t0` without attributes (after splice and join), then
+    `SyntaxPosRule` on it (or nothing) -/
+theorem parseDoc_stages {cfg : DocCfg} {src : List Char} {t : Node} (h : parseDoc cfg src = .ok t) :
+    ∃ t0, Every (Spliced false) t0 ∧
+      (if cfg.sourcepos = true then sourceposNode src (SourceMap.mkMarks src) t0 = .ok t else t = t0) := by
+  unfold parseDoc at h
+  split at h
+  · cases h
+  · rename_i root refs hb
+    obtain ⟨hroot, hwf⟩ := Block.parseBlocks_wf hb
+    unfold afterBlocks at h
+    split at h
+    · cases h
+    · rename_i t0 hs
+      obtain ⟨he0, hk0⟩ := spliceNode_every hwf hroot hs
+      rw [hasEmph_inlineCfg] at he0
+      refine ⟨if cfg.hasJoin = true then joinNode t0 else t0, ?_, ?_⟩
+      · cases hj : cfg.hasJoin with
+        | true =>
+          rw [hj] at he0
+          simp only [if_true]
+          exact joinNode_every he0 (by rw [hk0]; rfl)
+        | false =>
+          rw [hj] at he0
+          simp only [Bool.false_eq_true, if_false]
+          exact he0
+      · simp only at h
+        split at h
+        · simp only [*, if_true]
+        · cases h; simp only [*]; simp
+
+/-- the attribute list of a node of a parsed tree under `sourcepos`: exactly one `data-sourcepos`,
+    holding the positions the SPECIFICATION of C15 (`SourceMap.specRange`: lines and columns counted on
+    the text, CR LF once) assigns to the node's byte range — none for a node without range -/
+def SpAttr (src : List Char) (n : Node) : Prop :=
+  n.attrs = match n.range with
+    | none => []
+    | some r => [(aSourcepos, sourceposValue (SourceMap.specRange src r))]
+
+mutual
+theorem sourceposNode_spec (src : List Char) (t t' : Node) (he : Every (Spliced false) t)
+    (h : sourceposNode src (SourceMap.mkMarks src) t = .ok t') : Every (SpAttr src) t' := by
+  match t with
+  | ⟨k, r, a, cs⟩ =>
+    simp only [sourceposNode, sourceposAttrs_eq] at h
+    split at h
+    · cases h
+    · rename_i cs' hcs
+      cases h
+      refine .mk _ ?_ (sourceposList_spec src cs cs' he.child hcs)
+      have ha : a = [] := he.here.1
+      subst ha
+      unfold SpAttr
+      cases r <;> simp
+theorem sourceposList_spec (src : List Char) (cs cs' : List Node) (he : ∀ c ∈ cs, Every (Spliced false) c)
+    (h : sourceposList src (SourceMap.mkMarks src) cs = .ok cs') : ∀ c ∈ cs', Every (SpAttr src) c := by
+  match cs with
+  | [] => simp [sourceposList] at h; subst h; simp
+  | c :: r =>
+    simp only [sourceposList] at h
+    split at h
+    · cases h
+    · rename_i c' hc
+      split at h
+      · cases h
+      · rename_i r' hr
+        cases h
+        intro x hx
+        rcases List.mem_cons.mp hx with rfl | hx
+        · exact sourceposNode_spec src c _ (he c (by simp)) hc
+        · exact sourceposList_spec src r r' (fun y hy => he y (List.mem_cons_of_mem _ hy)) hr x hx
+end
+
+/-- **`doc_sourcepos_spec` (C15 for documents).**  With `sourcepos`, every node of the parsed tree that
+    has a range carries exactly one attribute, `data-sourcepos="l1:c1-l2:c2"`, where the four numbers
+    are what the specification of C15 computes from the text for that byte range
+    (`C15.getPositions_spec`); a node without range carries none.  Without `sourcepos` no node
+    carries any attribute. -/
+theorem doc_sourcepos_spec (cfg : DocCfg) (src : List Char) (t : Node) (h : parseDoc cfg src = .ok t) :
+    if cfg.sourcepos = true then Every (SpAttr src) t else Every (fun n => n.attrs = []) t := by
+  obtain ⟨t0, he, hs⟩ := parseDoc_stages h
+  split
+  · rename_i hsp
+    simp only [hsp, if_true] at hs
+    exact sourceposNode_spec src t0 t he hs
+  · rename_i hsp
+    simp only [hsp] at hs
+    subst hs
+    exact he.imp (fun n hn => hn.1)
+
+/-! ## 6. line endings (C10 at document level): the reduction to two congruence lemmas -/
+
+mutual
+/-- the tree without its source ranges -/
+def eraseRanges : Node → Node
+  | ⟨k, _, a, cs⟩ => ⟨k, none, a, eraseRangesList cs⟩
+def eraseRangesList : List Node → List Node
+  | [] => []
+  | c :: cs => eraseRanges c :: eraseRangesList cs
+end
+
+theorem eraseRanges_eq (n : Node) :
+    eraseRanges n = { n with range := none, children := eraseRangesList n.children } := by
+  cases n; simp [eraseRanges]
+
+theorem eraseRangesList_eq_map (l : List Node) : eraseRangesList l = l.map eraseRanges := by
+  induction l with
+  | nil => rfl
+  | cons c cs ih => simp [eraseRangesList, ih]
+
+mutual
+theorem toRender_erase (lp : List Char) (t : Node) : toRender lp (eraseRanges t) = toRender lp t := by
+  match t with
+  | ⟨k, r, a, cs⟩ => simp only [eraseRanges, toRender, toRenderList_erase lp cs]
+theorem toRenderList_erase (lp : List Char) (cs : List Node) :
+    toRenderList lp (eraseRangesList cs) = toRenderList lp cs := by
+  match cs with
+  | [] => rfl
+  | c :: r => simp only [eraseRangesList, toRenderList, toRender_erase lp c, toRenderList_erase lp r]
+end
+
+/-- **Rendering does not read source ranges**: two trees that differ in ranges only render alike
+    (the ranges reach the output only through the `data-sourcepos` attributes `SyntaxPosRule` makes
+    of them). -/
+theorem render_ranges_irrelevant (cfg : DocCfg) (t t' : Node) (h : eraseRanges t = eraseRanges t') :
+    renderEvents cfg t = renderEvents cfg t' := by
+  unfold renderEvents
+  rw [← toRender_erase cfg.langPrefix t, h, toRender_erase]
+
+/-! ### the join pass commutes with erasing ranges -/
+
+theorem erase_isText (n : Node) : (eraseRanges n).isText = n.isText := by
+  rw [eraseRanges_eq]; rfl
+
+theorem erase_content (n : Node) : (eraseRanges n).content = n.content := by
+  rw [eraseRanges_eq]; rfl
+
+theorem erase_markerToText (n : Node) : eraseRanges (markerToText n) = markerToText (eraseRanges n) := by
+  obtain ⟨k, r, a, cs⟩ := n
+  unfold markerToText
+  simp only [eraseRanges]
+  split <;> simp_all [eraseRanges]
+
+theorem erase_emptied (n : Node) : eraseRanges (emptied n) = emptied (eraseRanges n) := by
+  obtain ⟨k, r, a, cs⟩ := n
+  simp [emptied, eraseRanges]
+
+theorem erase_merged (a b : Node) : eraseRanges (merged a b) = merged (eraseRanges a) (eraseRanges b) := by
+  obtain ⟨k, r, at_, cs⟩ := a
+  obtain ⟨k', r', at', cs'⟩ := b
+  simp [merged, eraseRanges, Node.content]
+
+theorem erase_mergeLoop (cur : Node) (rest : List Node) :
+    (mergeLoop cur rest).map eraseRanges = mergeLoop (eraseRanges cur) (rest.map eraseRanges) := by
+  induction rest generalizing cur with
+  | nil => simp [mergeLoop]
+  | cons nxt rest ih =>
+    simp only [mergeLoop, List.map_cons, erase_isText]
+    split
+    · simp only [List.map_cons, ih, erase_emptied, erase_merged]
+    · simp only [List.map_cons, ih]
+
+theorem erase_keep (n : Node) : keep (eraseRanges n) = keep n := by
+  simp [keep, erase_isText, erase_content]
+
+theorem erase_filter_keep (l : List Node) :
+    (l.filter keep).map eraseRanges = (l.map eraseRanges).filter keep := by
+  induction l with
+  | nil => rfl
+  | cons c r ih =>
+    simp only [List.filter_cons, List.map_cons, erase_keep]
+    split <;> simp [ih]
+
+theorem erase_fragmentsJoin (cs : List Node) :
+    (fragmentsJoin cs).map eraseRanges = fragmentsJoin (cs.map eraseRanges) := by
+  unfold fragmentsJoin
+  rw [erase_filter_keep]
+  congr 1
+  unfold pass1
+  cases cs with
+  | nil => rfl
+  | cons c r =>
+    simp only [List.map_cons, mergeAll, erase_mergeLoop, erase_markerToText, List.map_map]
+    congr 1
+    simp [Function.comp_def, erase_markerToText]
+
+theorem nsize_erase_aux (k : Nat) : ∀ n : Node, nsize n ≤ k → nsize (eraseRanges n) = nsize n := by
+  induction k with
+  | zero => intro n hn; rw [nsize_eq] at hn; omega
+  | succ k ih =>
+    intro n hn
+    rw [eraseRanges_eq, nsize_eq, nsize_eq n]
+    simp only
+    congr 1
+    rw [eraseRangesList_eq_map]
+    have : ∀ l : List Node, nsizeList l ≤ k → nsizeList (l.map eraseRanges) = nsizeList l := by
+      intro l
+      induction l with
+      | nil => intro _; rfl
+      | cons c r ihl =>
+        intro hl
+        simp only [List.map_cons, nsizeList] at hl ⊢
+        rw [ih c (by omega), ihl (by omega)]
+    exact this _ (by rw [nsize_eq] at hn; omega)
+
+theorem erase_joinNode_aux (k : Nat) : ∀ n : Node, nsize n ≤ k →
+    eraseRanges (joinNode n) = joinNode (eraseRanges n) := by
+  induction k with
+  | zero => intro n hn; rw [nsize_eq] at hn; omega
+  | succ k ih =>
+    intro n hn
+    rw [joinNode_eq, joinNode_eq, joinList_eq_map, joinList_eq_map, eraseRanges_eq, eraseRanges_eq]
+    simp only [eraseRangesList_eq_map, ← erase_fragmentsJoin, List.map_map]
+    congr 1
+    apply List.map_congr_left
+    intro x hx
+    obtain ⟨c, hc, hr, _⟩ := fragmentsJoin_mem _ x hx
+    have hsz : nsize x ≤ k := by
+      have h1 : nsize x = nsize c := by rw [nsize_eq, nsize_eq, hr.1]
+      have h2 := nsize_le_of_mem hc
+      rw [nsize_eq] at hn
+      omega
+    simp only [Function.comp]
+    exact ih x hsz
+
+/-- `FragmentsJoin` commutes with erasing the ranges: it reads ranges only to compute ranges -/
+theorem erase_joinNode (n : Node) : eraseRanges (joinNode n) = joinNode (eraseRanges n) :=
+  erase_joinNode_aux _ n (Nat.le_refl _)
+
+/-! ### the splice walk respects "equal up to ranges and mappings" -/
+
+/-- a block value without the per-line table of an `InlineRoot` -/
+def eraseK : Block.Kind → Block.Kind
+  | .inlineRoot c _ => .inlineRoot c []
+  | k => k
+
+mutual
+/-- the block tree without source ranges and `InlineRoot` mappings -/
+def eraseB : Block.BNode → Block.BNode
+  | ⟨k, _, cs⟩ => ⟨eraseK k, none, eraseBList cs⟩
+def eraseBList : List Block.BNode → List Block.BNode
+  | [] => []
+  | c :: cs => eraseB c :: eraseBList cs
+end
+
+/-- **(L2)** what is needed of the inline slice: for one text, the children `md.inline.parse`
+    returns under two per-line tables differ in their ranges only -/
+def InlineRangeFree (icfg : Inline.Cfg) : Prop :=
+  ∀ (content : List Char) (m₁ m₂ : InlineOps.Srcmap) (ns₁ ns₂ : List Inline.Node),
+    Inline.parseInline icfg content m₁ = .ok ns₁ → Inline.parseInline icfg content m₂ = .ok ns₂ →
+    eraseRangesList (ofInlineList ns₁) = eraseRangesList (ofInlineList ns₂)
+
+theorem eraseRangesList_append (a b : List Node) :
+    eraseRangesList (a ++ b) = eraseRangesList a ++ eraseRangesList b := by
+  simp [eraseRangesList_eq_map]
+
+theorem eraseK_inl {k : Block.Kind} {c : List Char} {m : List (Nat × Nat)}
+    (h : eraseK k = .inlineRoot c m) : m = [] ∧ ∃ m', k = .inlineRoot c m' := by
+  cases k <;> simp [eraseK] at h
+  obtain ⟨rfl, rfl⟩ := h
+  exact ⟨rfl, _, rfl⟩
+
+theorem eraseK_other {k k' : Block.Kind} (hk : ∀ c m, k ≠ .inlineRoot c m) (h : eraseK k = eraseK k') :
+    k' = k := by
+  cases k <;> cases k' <;> simp [eraseK] at h ⊢ <;> first | exact absurd rfl (hk _ _) | simp_all
+
+mutual
+theorem spliceNode_congr {icfg : Inline.Cfg} (hinl : InlineRangeFree icfg) (b₁ b₂ : Block.BNode)
+    (t₁ t₂ : Node) (he : eraseB b₁ = eraseB b₂) (hk : ∀ c m, b₁.kind ≠ .inlineRoot c m)
+    (h₁ : spliceNode icfg b₁ = .ok t₁) (h₂ : spliceNode icfg b₂ = .ok t₂) :
+    eraseRanges t₁ = eraseRanges t₂ := by
+  match b₁, b₂ with
+  | ⟨k₁, r₁, cs₁⟩, ⟨k₂, r₂, cs₂⟩ =>
+    simp only [eraseB, Block.BNode.mk.injEq] at he
+    have hkk := eraseK_other hk he.1
+    simp only [spliceNode] at h₁ h₂
+    split at h₁
+    · cases h₁
+    · rename_i o₁ ho₁
+      split at h₂
+      · cases h₂
+      · rename_i o₂ ho₂
+        cases h₁; cases h₂
+        simp only [eraseRanges, hkk, spliceList_congr hinl cs₁ cs₂ o₁ o₂ he.2.2 ho₁ ho₂]
+theorem spliceList_congr {icfg : Inline.Cfg} (hinl : InlineRangeFree icfg) (cs₁ cs₂ : List Block.BNode)
+    (o₁ o₂ : List Node) (he : eraseBList cs₁ = eraseBList cs₂)
+    (h₁ : spliceList icfg cs₁ = .ok o₁) (h₂ : spliceList icfg cs₂ = .ok o₂) :
+    eraseRangesList o₁ = eraseRangesList o₂ := by
+  match cs₁, cs₂ with
+  | [], [] => simp [spliceList] at h₁ h₂; subst h₁ h₂; rfl
+  | [], _ :: _ => simp [eraseBList] at he
+  | _ :: _, [] => simp [eraseBList] at he
+  | c₁ :: r₁, c₂ :: r₂ =>
+    simp only [eraseBList, List.cons.injEq] at he
+    obtain ⟨hc, hr⟩ := he
+    have hkinds : eraseK c₁.kind = eraseK c₂.kind := by
+      obtain ⟨k₁, x₁, y₁⟩ := c₁
+      obtain ⟨k₂, x₂, y₂⟩ := c₂
+      simp only [eraseB, Block.BNode.mk.injEq] at hc
+      exact hc.1
+    simp only [spliceList] at h₁ h₂
+    split at h₁
+    · -- an `InlineRoot` on the left, hence on the right, with the same text
+      rename_i content m₁ hk₁
+      rw [hk₁] at hkinds
+      obtain ⟨_, m₂, hk₂⟩ := eraseK_inl hkinds.symm
+      rw [hk₂] at h₂
+      simp only at h₂
+      split at h₁
+      · cases h₁
+      · rename_i ns₁ hns₁
+        split at h₁
+        · cases h₁
+        · rename_i q₁ hq₁
+          split at h₂
+          · cases h₂
+          · rename_i ns₂ hns₂
+            split at h₂
+            · cases h₂
+            · rename_i q₂ hq₂
+              cases h₁; cases h₂
+              rw [eraseRangesList_append, eraseRangesList_append, hinl content m₁ m₂ ns₁ ns₂ hns₁ hns₂,
+                spliceList_congr hinl r₁ r₂ q₁ q₂ hr hq₁ hq₂]
+    · -- any other child on the left, hence the same kind on the right
+      rename_i hne₁
+      have hk₂ : c₂.kind = c₁.kind := eraseK_other (fun c m e => hne₁ c m e) hkinds
+      split at h₂
+      · rename_i content m₂ hk₂'
+        rw [hk₂] at hk₂'
+        exact absurd hk₂' (hne₁ _ _)
+      · split at h₁
+        · cases h₁
+        · rename_i t₁ ht₁
+          split at h₁
+          · cases h₁
+          · rename_i q₁ hq₁
+            split at h₂
+            · cases h₂
+            · rename_i t₂ ht₂
+              split at h₂
+              · cases h₂
+              · rename_i q₂ hq₂
+                cases h₁; cases h₂
+                simp only [eraseRangesList]
+                rw [spliceNode_congr hinl c₁ c₂ t₁ t₂ hc (fun c m e => hne₁ c m e) ht₁ ht₂,
+                  spliceList_congr hinl r₁ r₂ q₁ q₂ hr hq₁ hq₂]
+end
+
+/-! ### the reduction -/
+
+/-- **`doc_line_ending_reduction`.**  Two sources whose block passes return the same reference map and
+    trees that are equal up to source ranges and `InlineRoot` line tables (`eraseB`) — this is what
+    (L1), the congruence of the block tokenizer under "same views", has to deliver for
+    `src` / `lfToCrlf src` / `lfToCr src` / `src ++ "\n"` — render to the same HTML in both modes when
+    `sourcepos` is off, provided the inline parser's output depends on the line table through its
+    ranges only (L2, `InlineRangeFree`).  The splice walk (`spliceNode_congr`), `FragmentsJoin`
+    (`erase_joinNode`) and the renderer (`render_ranges_irrelevant`) are covered here. -/
+theorem doc_line_ending_reduction (cfg : DocCfg) (s₁ s₂ : List Char) (hsp : cfg.sourcepos = false)
+    (r₁ r₂ : Block.BNode) (refs : Refs.RefMap)
+    (hb₁ : Block.parseBlocks cfg.blockCfg s₁ = .ok (r₁, refs))
+    (hb₂ : Block.parseBlocks cfg.blockCfg s₂ = .ok (r₂, refs))
+    (hblk : eraseB r₁ = eraseB r₂) (hinl : InlineRangeFree (cfg.inlineCfg refs))
+    (t₁ t₂ : Node) (h₁ : parseDoc cfg s₁ = .ok t₁) (h₂ : parseDoc cfg s₂ = .ok t₂) (x : Bool) :
+    renderDoc x cfg s₁ = renderDoc x cfg s₂ := by
+  have hroot := (Block.parseBlocks_wf hb₁).1
+  have key : eraseRanges t₁ = eraseRanges t₂ := by
+    unfold parseDoc at h₁ h₂
+    rw [hb₁] at h₁
+    rw [hb₂] at h₂
+    simp only [afterBlocks, hsp, Bool.false_eq_true, if_false] at h₁ h₂
+    split at h₁
+    · cases h₁
+    · rename_i u₁ hu₁
+      split at h₂
+      · cases h₂
+      · rename_i u₂ hu₂
+        cases h₁; cases h₂
+        have hu := spliceNode_congr hinl r₁ r₂ u₁ u₂ hblk (by rw [hroot]; simp) hu₁ hu₂
+        split
+        · rw [erase_joinNode, erase_joinNode, hu]
+        · exact hu
+  unfold renderDoc
+  rw [h₁, h₂]
+  simp only [render_ranges_irrelevant cfg t₁ t₂ key]
+
+/-
+  OPEN (C10 at document level):
+
+    theorem doc_line_ending_invariant (x : Bool) (cfg : DocCfg) (src : List Char) (hsp : cfg.sourcepos = false) :
+        ('\r' ∉ src → renderDoc x cfg (Lines.lfToCrlf src) = renderDoc x cfg src ∧
+                      renderDoc x cfg (Lines.lfToCr src) = renderDoc x cfg src) ∧
+        (src.getLast? ≠ some '\n' ∧ src.getLast? ≠ some '\r' →
+                      renderDoc x cfg (src ++ ['\n']) = renderDoc x cfg src)
+
+  Proved: everything behind the two parsers (`doc_line_ending_reduction`): given the block-level
+  relation `eraseB r₁ = eraseB r₂` with equal reference maps, and `InlineRangeFree`, the splice walk,
+  the join pass and the renderer produce equal HTML.  `Props/C10` gives equal views and equal
+  `get_lines` contents for the three rewritings (`split_crlf`, `split_cr`, `split_final_newline`,
+  `get_lines_same_views`), `Props/C06` that every silent rule is a function of the view
+  (`<rule>_silent_view`, `testRules_same_view`).  Missing, precisely:
+   (L1) block slice — the whole-tokenizer congruence "same views ⇒ same tree up to ranges":
+          theorem parseBlocks_same_views (cfg : Block.Cfg) (s₁ s₂ : List Char) (h : Lines.views s₁ = Lines.views s₂) :
+              match Block.parseBlocks cfg s₁, Block.parseBlocks cfg s₂ with
+              | .ok (r₁, refs₁), .ok (r₂, refs₂) => eraseB r₁ = eraseB r₂ ∧ refs₁ = refs₂
+              | .error e₁, .error e₂ => e₁ = e₂
+              | _, _ => False
+        i.e. a simulation of `tokenize` between two states whose tables are entrywise related (same
+        `indent_nonspace`, same line text, offsets equal RELATIVE to `line_start`) through all nine
+        rules in real mode, including the table rewriting of `bqRewrite` / `itemRewrite` (they slice
+        `src[line_start..line_end]`, equal by the relation) and the panics of `get_map`
+        (`debug_assert!(start <= end)` compares absolute offsets of DIFFERENT lines: needs the tables'
+        monotonicity, `C10.offsets_increasing`).  The simulation machinery being built in `Props/C06`
+        for `quote_commutes` (`Tbl`, `getLinesGo_sim`, `relocNode`) is for a different table relation
+        (shift by a prefix) and cannot be instantiated here as it stands.
+   (L2) inline slice — `InlineRangeFree icfg` for every `icfg` (at least for the tables `get_lines`
+        produces): a simulation of `Inline.tokenize` between two states that differ in `srcmap` and in
+        the ranges of `children` only; ranges never decide control flow, but they can decide PANICS
+        (`trailing_text_pop`: `map_end - count`; `matchInner`: `end - marker_len`; `get_map`'s
+        `debug_assert!`), so the equal-panic half needs `Inline.inline_children_ordered`-style range
+        facts (`MapOK`) on both sides.
+  Until then the composition is covered by the oracle `c10` and by the stream `pipeline` (CR / CRLF /
+  mixed-terminator variants of every document family; 0 differences).
+-/
+
+/-! ## non-vacuity: documents with every block and inline kind, through `parseDoc` / `renderDoc` -/
+
+/-- a configuration for examples: every html-free rule in the stock order, `*` `_` emphasis and `~~`
+    strikethrough, one-row entity table, ASCII case tables -/
+def exCfg (sp : Bool) (mn : Nat) : DocCfg :=
+  { maxNesting := mn,
+    blockChain := [.code, .fence, .blockquote, .hr, .list, .reference, .heading, .lheading, .paragraph],
+    inlineChain := [.text, .newline, .escape, .backticks, .emph '*' true, .emph '_' false, .link, .linkEnd,
+                    .image, .autolink, .entity, .emph '~' true],
+    fns := fun m i => if m = '*' ∨ m = '_' then (if i = 0 then some .em else if i = 1 then some .strong else none)
+                      else if m = '~' then (if i = 1 then some .strike else none) else none,
+    sourcepos := sp, langPrefix := ['l', '-'],
+    entity := fun s => if s = ['&', 'a', 'm', 'p', ';'] then some ['&'] else none,
+    L := fun c => [if 65 ≤ c ∧ c ≤ 90 then c + 32 else c],
+    U := fun c => [if 97 ≤ c ∧ c ≤ 122 then c - 32 else c],
+    isWhite := fun c => Refs.isWs c.toNat, isPunctChar := fun _ => false }
+
+/-- node kinds without payload (for examples) -/
+inductive Tag where
+  | root | p | bq | ul | ol | li | code | fence | hr | h | sh | inl | T | X | SB | HB | C | E | S | K | L | I | A | M
+  deriving DecidableEq, Repr
+
+def Kind.tag : Kind → Tag
+  | .blk .root => .root | .blk .paragraph => .p | .blk .blockquote => .bq | .blk (.bulletList _) => .ul
+  | .blk (.orderedList _ _) => .ol | .blk .listItem => .li | .blk (.codeBlock _) => .code
+  | .blk (.codeFence _ _ _ _) => .fence | .blk (.hr _ _) => .hr | .blk (.atx _) => .h | .blk (.setext _ _) => .sh
+  | .blk (.inlineRoot _ _) => .inl | .inl (.text _) => .T | .inl (.special _ _ _) => .X | .inl .softbreak => .SB
+  | .inl .hardbreak => .HB | .inl (.codeInline _ _) => .C | .inl (.wrap .em _) => .E | .inl (.wrap .strong _) => .S
+  | .inl (.wrap .strike _) => .K | .inl (.link _ _) => .L | .inl (.image _ _) => .I | .inl (.autolink _) => .A
+  | .inl (.emphMarker _ _ _ _ _) => .M
+
+mutual
+/-- the kinds of a tree in pre-order -/
+def tags : Node → List Tag
+  | ⟨k, _, _, cs⟩ => Kind.tag k :: tagsList cs
+def tagsList : List Node → List Tag
+  | [] => []
+  | c :: cs => tags c ++ tagsList cs
+end
+
+/-- every block kind: ATX and setext heading, quote with paragraph, tight bullet and ordered list,
+    thematic break, indented code, fence with info -/
+def exBlocks : List Char :=
+  "# h\n\na\n=\n\n> q\n\n- i\n\n1. o\n\n***\n\n    c\n\n```r\nf\n```\n".toList
+
+/-- every inline kind: reference definition + use, em, strong, strikethrough, code span, link, image,
+    autolink, character reference, escape, hard and soft break, a delimiter that stays text -/
+def exInlines : List Char :=
+  "[r]: /u\n\n*e* **s** ~~k~~ `c` [l](/v) ![i](/w) <xx:y> &amp; \\* a  \nb\nc [r] *".toList
+
+deriving instance DecidableEq for Except
+
+example : (parseDoc (exCfg true 100) exBlocks).toOption.map tags =
+    some [.root, .h, .T, .sh, .T, .bq, .p, .T, .ul, .li, .T, .ol, .li, .T, .hr, .code, .fence] := by
+  decide +kernel
+
+example : (parseDoc (exCfg true 100) exInlines).toOption.map tags =
+    some [.root, .p, .E, .T, .T, .S, .T, .T, .K, .T, .T, .C, .T, .T, .L, .T, .T, .I, .T, .T, .A, .T, .T,
+          .X, .T, .X, .T, .HB, .T, .SB, .T, .L, .T, .T] := by
+  decide +kernel
+
+example : (renderDoc false (exCfg false 100) exBlocks).toOption.map List.length = some 173 := by decide +kernel
+example : (renderDoc true (exCfg true 100) exInlines).toOption.map List.length = some 405 := by decide +kernel
+
+/-- a hostile destination and title, with source positions: every delimiter of the payload leaves
+    escaped (`"` in the url is percent-encoded by `normalize_link`) -/
+example : renderDoc false (exCfg true 100) "[a](<\"> \"<b>&\")".toList =
+    .ok ("<p data-sourcepos=\"1:1-1:15\">".toList ++ "<a data-sourcepos=\"1:1-1:15\" ".toList ++
+         "href=\"%22\" title=\"".toList ++ "&lt;b&gt;&amp;\">a</a></p>\n".toList) := by
+  decide +kernel
+
+/-- the hypothesis of the `doc_*` theorems is satisfiable on both documents -/
+theorem exInlines_parses : ∃ t, parseDoc (exCfg true 100) exInlines = .ok t := by
+  have h : (parseDoc (exCfg true 100) exInlines).toOption.isSome = true := by decide +kernel
+  cases hp : parseDoc (exCfg true 100) exInlines with
+  | ok t => exact ⟨t, rfl⟩
+  | error e => rw [hp] at h; cases h
+
+example : ∀ x : Bool, ∃ out, renderDoc x (exCfg true 100) exInlines = .ok out ∧ SafeHtml out := by
+  obtain ⟨t, ht⟩ := exInlines_parses
+  exact doc_safe_output _ _ t ht
+
+example : WF true true (match parseDoc (exCfg true 100) exInlines with | .ok t => t | .error _ => ⟨.blk .root, none, [], []⟩) := by
+  obtain ⟨t, ht⟩ := exInlines_parses
+  rw [ht]
+  exact doc_tree_wf _ _ t ht
+
+/-- `data-sourcepos` of the nodes of `"a\r\n*é* b"` (a CR LF counts once, `é` is one column) -/
+example : (parseDoc (exCfg true 100) "a\r\n*é* b".toList).toOption.map
+      (fun t => (t.attrs.map (·.2)) :: t.children.map (fun p => p.attrs.map (·.2))) =
+    some [["1:1-2:5".toList], ["1:1-2:5".toList]] := by decide +kernel
+
+/-- `max_nesting = 0`: the block tokenizer gives up at once; the document is empty, not a panic -/
+example : renderDoc false (exCfg false 0) "> *a*".toList = .ok [] := by decide +kernel
+
+/-- without the paragraph rule the no-paragraph fallback pushes bare `InlineRoot`s under `Root`: the
+    splice walk replaces them all the same, and `FragmentsJoin` merges texts of DIFFERENT lines that
+    have become siblings under `Root` … -/
+example : (parseDoc { exCfg false 100 with blockChain := [.hr], inlineChain := [.text, .emph '*' true] }
+      "a\nb\n***".toList).toOption.map (fun t => t.children.map (fun c => (c.kind, c.range))) =
+    some [(.inl (.text ['a', '\n', 'b', '\n']), some (0, 4)), (.blk (.hr '*' 3), some (4, 7))] := by
+  decide +kernel
+
+/-- … while without an emphasis-like rule (no join pass) they stay two adjacent `Text` siblings: the
+    text normal form of C14 needs the paragraph rule (its quantifier) or the join pass -/
+example : (parseDoc { exCfg false 100 with blockChain := [.hr], inlineChain := [.text] }
+      "a\nb\n***".toList).toOption.map (fun t => t.children.map (fun c => (c.kind, c.range))) =
+    some [(.inl (.text ['a', '\n']), some (0, 2)), (.inl (.text ['b', '\n']), some (2, 4)),
+          (.blk (.hr '*' 3), some (4, 7))] := by
+  decide +kernel
+
+/-- an instance of the OPEN `doc_line_ending_invariant`, by evaluation: LF, CR LF, CR and a final
+    line ending, in a list item behind a tab, with a fence and a hard break -/
+example : let c := exCfg false 100
+    renderDoc false c "- a  \n\tb\n```\nc".toList = renderDoc false c "- a  \r\n\tb\r\n```\r\nc".toList ∧
+    renderDoc false c "- a  \n\tb\n```\nc".toList = renderDoc false c "- a  \r\tb\r```\rc".toList ∧
+    renderDoc false c "- a  \n\tb\n```\nc".toList = renderDoc false c "- a  \n\tb\n```\nc\n".toList := by
+  decide +kernel
+
+end MdIt.Pipeline
